@@ -19,7 +19,7 @@ use grin_core::consensus;
 use grin_core::core::hash::{Hash, Hashed, ZERO_HASH};
 use grin_core::core::id::ShortIdentifiable;
 use grin_core::core::merkle_proof::MerkleProof;
-use grin_core::core::pmmr::{self, ReadonlyPMMR, VecBackend, PMMR};
+use grin_core::core::pmmr::{self, ReadablePMMR, ReadonlyPMMR, VecBackend, PMMR};
 use grin_core::core::{
 	Block, BlockHeader, BlockSums, CommitWrapper, CompactBlock, FeeFields, HeaderVersion, Input,
 	Inputs, KernelFeatures, NRDRelativeHeight, Output, OutputFeatures, OutputIdentifier, Segment,
@@ -28,7 +28,7 @@ use grin_core::core::{
 };
 use grin_core::genesis;
 use grin_core::global::{self, ChainTypes};
-use grin_core::pow::{self, Difficulty, Proof, ProofOfWork};
+use grin_core::pow::{Difficulty, Proof, ProofOfWork};
 use grin_core::ser::{
 	self, BufReader, DeserializationMode, PMMRable, ProtocolVersion, Readable, Reader, Writeable,
 };
@@ -118,7 +118,12 @@ struct Cx<'a> {
 	evals: u64,
 	sigs: HashSet<u64>,
 	deadline: Instant,
+	first_only_armed: bool,
+	task: String,
+	seq: u64,
 }
+
+static VIOLS: Mutex<BTreeMap<String, ((String, u64), String, Value)>> = Mutex::new(BTreeMap::new());
 
 impl<'a> Cx<'a> {
 	fn new(run: &'a Run, ct: ChainTypes, deadline: Instant) -> Cx<'a> {
@@ -131,7 +136,14 @@ impl<'a> Cx<'a> {
 			evals: 0,
 			sigs: HashSet::new(),
 			deadline,
+			first_only_armed: true,
+			task: String::new(),
+			seq: 0,
 		}
+	}
+	fn named(mut self, task: &str) -> Self {
+		self.task = task.to_string();
+		self
 	}
 	fn bump(&mut self, k: &str) {
 		self.bump_n(k, 1);
@@ -161,7 +173,26 @@ impl<'a> Cx<'a> {
 	}
 	fn violation(&mut self, sig: &str, what: &str, replay: Value) {
 		self.bump("violations.raised");
-		self.run.violation(sig, what, replay);
+		self.seq += 1;
+		// collected and submitted in a deterministic order at the end (independent of thread timing)
+		let mut v = VIOLS.lock().unwrap();
+		let key = (self.task.clone(), self.seq);
+		match v.get(sig) {
+			Some((k, _, _)) if *k <= key => {}
+			_ => {
+				v.insert(sig.to_string(), (key, what.to_string(), replay));
+			}
+		}
+	}
+	/// Inside one round-trip evaluation only the first failing oracle clause is reported, so that
+	/// one defect maps to one signature (later clauses fail as a consequence of the first).
+	fn violation_first(&mut self, sig: &str, what: &str, replay: Value) {
+		if self.first_only_armed {
+			self.first_only_armed = false;
+			self.violation(sig, what, replay);
+		} else {
+			self.bump("violations.consequential_clauses_suppressed");
+		}
 	}
 }
 
@@ -1372,6 +1403,7 @@ fn rt_sig<T: Case>(x: &T, v: u32, event: &str) -> String {
 fn rt<T: Case>(cx: &mut Cx, shape: &str, x: &T) {
 	let fam = T::fam();
 	let ct = cx.ct;
+	cx.first_only_armed = true;
 	let mut encs: Vec<Option<Vec<u8>>> = vec![None, None, None, None];
 	let mut ys: Vec<Option<T>> = vec![None, None, None, None];
 	let h0 = x.id_hash();
@@ -1379,7 +1411,7 @@ fn rt<T: Case>(cx: &mut Cx, shape: &str, x: &T) {
 		cx.bump(&format!("idhash_vs_definition.{}", fam));
 		if h != r {
 			let b = ser::ser_vec(x, pv(1)).unwrap_or_default();
-			cx.violation(
+			cx.violation_first(
 				&format!("type={};phase=hash;event=identity_hash_is_not_hash_of_v1_definition_bytes", fam),
 				&format!("{}: hash() = {:?} but the hash of the version-1 definition bytes is {:?}", fam, h, r),
 				replay_of(fam, ct, 1, shape, &b, "identity hash vs reference"),
@@ -1390,7 +1422,7 @@ fn rt<T: Case>(cx: &mut Cx, shape: &str, x: &T) {
 		cx.eval(&format!("rt|{}|{}|v{}|{}", fam, shape, v, ct));
 		let enc = match catch(|| ser::ser_vec(x, pv(v))) {
 			Err(p) => {
-				cx.violation(
+				cx.violation_first(
 					&format!("{}@{}", rt_sig(x, v, "encode_panic"), p.location),
 					&format!("{}: encoding panicked: {}", fam, p.message),
 					replay_of(fam, ct, v, shape, &[], &p.message),
@@ -1401,7 +1433,7 @@ fn rt<T: Case>(cx: &mut Cx, shape: &str, x: &T) {
 				if !x.carried(v) {
 					cx.bump(&format!("not_carried.encode.{}.v{}", fam, v));
 				} else {
-					cx.violation(
+					cx.violation_first(
 						&rt_sig(x, v, "encode_error"),
 						&format!("{}: encoding at v{} failed: {:?}", fam, v, e),
 						replay_of(fam, ct, v, shape, &[], &format!("{:?}", e)),
@@ -1443,7 +1475,7 @@ fn rt<T: Case>(cx: &mut Cx, shape: &str, x: &T) {
 		match dec_bin::<T>(&buf, v) {
 			Dec::Panic(p) => {
 				ok = false;
-				cx.violation(
+				cx.violation_first(
 					&format!("{}@{}", rt_sig(x, v, "decode_panic"), p.location),
 					&format!("{}: decoding its own encoding panicked: {}", fam, p.message),
 					replay_of(fam, ct, v, shape, &enc, &p.message),
@@ -1451,7 +1483,7 @@ fn rt<T: Case>(cx: &mut Cx, shape: &str, x: &T) {
 			}
 			Dec::Err(e) => {
 				ok = false;
-				cx.violation(
+				cx.violation_first(
 					&rt_sig(x, v, "decode_error"),
 					&format!("{}: its own v{} encoding does not decode: {:?}", fam, v, e),
 					replay_of(fam, ct, v, shape, &enc, &format!("{:?}", e)),
@@ -1460,7 +1492,7 @@ fn rt<T: Case>(cx: &mut Cx, shape: &str, x: &T) {
 			Dec::Ok(y, used) => {
 				if used != enc.len() {
 					ok = false;
-					cx.violation(
+					cx.violation_first(
 						&rt_sig(x, v, "consumed_length_mismatch"),
 						&format!("{}: decoder consumed {} of {} bytes", fam, used, enc.len()),
 						replay_of(fam, ct, v, shape, &enc, "BinReader with sentinel"),
@@ -1468,7 +1500,7 @@ fn rt<T: Case>(cx: &mut Cx, shape: &str, x: &T) {
 				}
 				if let Some(d) = x.diff(&y, v) {
 					ok = false;
-					cx.violation(
+					cx.violation_first(
 						&rt_sig(x, v, "value_mismatch"),
 						&format!("{}: decoded value differs after v{} transport: {}", fam, v, d),
 						replay_of(fam, ct, v, shape, &enc, &d),
@@ -1478,7 +1510,7 @@ fn rt<T: Case>(cx: &mut Cx, shape: &str, x: &T) {
 					Ok(Ok(b2)) if b2 == enc => {}
 					Ok(Ok(b2)) => {
 						ok = false;
-						cx.violation(
+						cx.violation_first(
 							&rt_sig(x, v, "reencode_differs"),
 							&format!(
 								"{}: re-encoding at v{} gives {} bytes != original {} bytes",
@@ -1492,7 +1524,7 @@ fn rt<T: Case>(cx: &mut Cx, shape: &str, x: &T) {
 					}
 					other => {
 						ok = false;
-						cx.violation(
+						cx.violation_first(
 							&rt_sig(x, v, "reencode_failed"),
 							&format!("{}: re-encoding failed: {:?}", fam, other.map(|r| r.err()).map_err(|p| p.message)),
 							replay_of(fam, ct, v, shape, &enc, ""),
@@ -1502,7 +1534,7 @@ fn rt<T: Case>(cx: &mut Cx, shape: &str, x: &T) {
 				if let Some(h) = h0 {
 					if y.id_hash() != Some(h) {
 						ok = false;
-						cx.violation(
+						cx.violation_first(
 							&rt_sig(x, v, "identity_hash_changed"),
 							&format!("{}: hash {:?} became {:?} after v{} transport", fam, h, y.id_hash(), v),
 							replay_of(fam, ct, v, shape, &enc, ""),
@@ -1517,7 +1549,7 @@ fn rt<T: Case>(cx: &mut Cx, shape: &str, x: &T) {
 				let same = matches!(ser::ser_vec(&y2, pv(v)), Ok(ref b) if *b == enc);
 				if used != enc.len() || !same || x.diff(&y2, v).is_some() {
 					ok = false;
-					cx.violation(
+					cx.violation_first(
 						&rt_sig(x, v, "bufreader_mismatch"),
 						&format!(
 							"{}: BufReader decode differs (consumed {} of {}, reencode same: {})",
@@ -1532,7 +1564,7 @@ fn rt<T: Case>(cx: &mut Cx, shape: &str, x: &T) {
 			}
 			Dec::Err(e) => {
 				ok = false;
-				cx.violation(
+				cx.violation_first(
 					&rt_sig(x, v, "bufreader_decode_error"),
 					&format!("{}: BufReader refuses its own v{} encoding: {:?}", fam, v, e),
 					replay_of(fam, ct, v, shape, &enc, &format!("{:?}", e)),
@@ -1540,7 +1572,7 @@ fn rt<T: Case>(cx: &mut Cx, shape: &str, x: &T) {
 			}
 			Dec::Panic(p) => {
 				ok = false;
-				cx.violation(
+				cx.violation_first(
 					&format!("{}@{}", rt_sig(x, v, "bufreader_decode_panic"), p.location),
 					&format!("{}: BufReader decode panicked: {}", fam, p.message),
 					replay_of(fam, ct, v, shape, &enc, &p.message),
@@ -1563,7 +1595,7 @@ fn rt<T: Case>(cx: &mut Cx, shape: &str, x: &T) {
 					match ser::ser_vec(y, pv(VERSIONS[j])) {
 						Ok(b) if b == *ej => cx.bump(&format!("xver.{}", fam)),
 						other => {
-							cx.violation(
+							cx.violation_first(
 								&format!(
 									"{};via={}",
 									rt_sig(x, VERSIONS[j], "cross_version_bytes_differ"),
@@ -2052,4 +2084,2360 @@ fn gen_header(p: &mut Prng, eb: u8, hv: u16) -> (BlockHeader, String) {
 		},
 	};
 	(h, format!("eb{}|hv{}|{}|{}|x{}", eb, hv, tc, nc, extreme.min(2)))
+}
+
+// ------------------------------------------------------------------ task: kernels
+
+fn task_kernels(cx: &mut Cx, p: &mut Prng, pools: &Pools, n: usize) {
+	// all four variants x field classes
+	for variant in 0..4u64 {
+		for _ in 0..n {
+			if cx.expired() {
+				return;
+			}
+			let (k, shape) = gen_kernel(p, pools, variant);
+			rt(cx, &shape, &k);
+			rt(cx, &shape, &k.features);
+		}
+	}
+	// every NRD relative height 1..=10080 (exhaustive), every fee_shift, fee boundaries
+	for h in 1..=consensus::WEEK_HEIGHT {
+		if cx.expired() {
+			return;
+		}
+		let f = KernelFeatures::NoRecentDuplicate {
+			fee: FeeFields::new(h % 16, 1 + h).unwrap(),
+			relative_height: NRDRelativeHeight::new(h).unwrap(),
+		};
+		rt(cx, &format!("nrd|rel_exhaustive|{}", h / 1024), &f);
+	}
+	for shift in 0..16u64 {
+		for fee in FEE_EDGES.iter() {
+			let fee = FeeFields::new(shift, *fee).unwrap();
+			rt(cx, "plain|fee_grid", &KernelFeatures::Plain { fee });
+			rt(
+				cx,
+				"heightlocked|fee_grid",
+				&KernelFeatures::HeightLocked {
+					fee,
+					lock_height: shift << 60 | 1,
+				},
+			);
+		}
+	}
+	// real signed coinbase kernels
+	for (_, k) in pools.cb.iter() {
+		rt(cx, "coinbase|real_sig", k);
+	}
+	perturb_kernels(cx, p, pools);
+}
+
+fn sweep_bytes() -> Vec<u8> {
+	vec![1, 2, 0x10, 0x7f, 0x80, 0xff]
+}
+
+fn perturb_kernels(cx: &mut Cx, p: &mut Prng, pools: &Pools) {
+	for variant in 0..4u64 {
+		let (k, _) = gen_kernel(p, pools, variant);
+		// ---- v1: reserved ("empty") bytes must be zero
+		let b1 = ref_kernel(&k, 1);
+		let reserved: Vec<usize> = match variant {
+			0 => (9..17).collect(),
+			1 => (1..17).collect(),
+			2 => vec![],
+			_ => (9..15).collect(),
+		};
+		for &pos in &reserved {
+			for val in sweep_bytes() {
+				let mut b = b1.clone();
+				b[pos] = val;
+				let sub = format!("variant{}|byte{}|{:02x}", variant, pos, val);
+				must_reject::<TxKernel>(cx, "TxKernel", "v1_reserved_bytes_nonzero", &sub, 1, &b, Mode::Strict);
+				must_reject::<KernelFeatures>(
+					cx,
+					"KernelFeatures",
+					"v1_reserved_bytes_nonzero",
+					&sub,
+					1,
+					&b[..17],
+					Mode::Strict,
+				);
+			}
+		}
+		// ---- feature tag sweep: only 0..=3 are defined (both encodings)
+		for v in VERSIONS {
+			let bv = ref_kernel(&k, v);
+			for tag in 4..=255u8 {
+				let mut b = bv.clone();
+				b[0] = tag;
+				// enough trailing bytes for any interpretation
+				b.extend_from_slice(&[0u8; 32]);
+				let sub = format!("variant{}|tag{}", variant, tag);
+				must_reject::<TxKernel>(cx, "TxKernel", &format!("unknown_feature_tag_{}", kclass(v)), &sub, v, &b, Mode::Strict);
+				must_reject::<KernelFeatures>(
+					cx,
+					"KernelFeatures",
+					&format!("unknown_feature_tag_{}", kclass(v)),
+					&sub,
+					v,
+					&b,
+					Mode::Strict,
+				);
+			}
+		}
+	}
+	// ---- NRD relative height outside 1..=WEEK_HEIGHT is not a value of the field
+	let fee = FeeFields::new(0, 7).unwrap();
+	let nrd = TxKernel {
+		features: KernelFeatures::NoRecentDuplicate {
+			fee,
+			relative_height: NRDRelativeHeight::new(5).unwrap(),
+		},
+		excess: pools.commits[0],
+		excess_sig: gen_sig(p),
+	};
+	for bad in [0u16, 10081, 10082, 0x8000, 0xffff] {
+		for v in VERSIONS {
+			let mut b = ref_kernel(&nrd, v);
+			let at = if v <= 1 { 15 } else { 9 };
+			b[at..at + 2].copy_from_slice(&bad.to_be_bytes());
+			must_reject::<TxKernel>(
+				cx,
+				"TxKernel",
+				&format!("nrd_relative_height_out_of_range_{}", kclass(v)),
+				&format!("h{}", bad),
+				v,
+				&b,
+				Mode::Strict,
+			);
+		}
+	}
+	// ---- informational: NRD kernels with the feature flag off are not carried
+	global::set_local_nrd_enabled(false);
+	for v in VERSIONS {
+		let b = ref_kernel(&nrd, v);
+		match dec_bin::<TxKernel>(&b, v) {
+			Dec::Err(_) => cx.bump("not_carried.nrd_flag_disabled"),
+			_ => cx.bump("info.nrd_decoded_with_flag_disabled"),
+		}
+	}
+	global::set_local_nrd_enabled(true);
+}
+
+// ------------------------------------------------------------------ task: small fixed types
+
+fn gen_addr(p: &mut Prng, class: u64) -> PeerAddr {
+	let port = match p.below(4) {
+		0 => 0,
+		1 => 65535,
+		2 => 3414,
+		_ => p.below(65536) as u16,
+	};
+	match class {
+		0 => {
+			let ip = match p.below(5) {
+				0 => Ipv4Addr::new(127, 0, 0, 1),
+				1 => Ipv4Addr::new(0, 0, 0, 0),
+				2 => Ipv4Addr::new(255, 255, 255, 255),
+				_ => Ipv4Addr::from(p.next_u32()),
+			};
+			PeerAddr(SocketAddr::V4(SocketAddrV4::new(ip, port)))
+		}
+		1 => {
+			// genuine v6 (not convertible to v4)
+			let mut seg = [0u16; 8];
+			for s in seg.iter_mut() {
+				*s = p.below(65536) as u16;
+			}
+			if seg[..5] == [0, 0, 0, 0, 0] {
+				seg[0] = 0x2001;
+			}
+			if p.chance(1, 6) {
+				seg = [0xfe80, 0, 0, 0, 0, 0, 0, 1];
+			}
+			PeerAddr(SocketAddr::V6(SocketAddrV6::new(Ipv6Addr::from(seg), port, 0, 0)))
+		}
+		2 => {
+			// ::ffff:a.b.c.d
+			let ip = Ipv4Addr::from(p.next_u32()).to_ipv6_mapped();
+			PeerAddr(SocketAddr::V6(SocketAddrV6::new(ip, port, 0, 0)))
+		}
+		_ => {
+			// ::a.b.c.d (includes ::1 and ::)
+			let low = match p.below(4) {
+				0 => 1u32,
+				1 => 0,
+				_ => p.next_u32(),
+			};
+			let ip = Ipv6Addr::new(0, 0, 0, 0, 0, 0, (low >> 16) as u16, low as u16);
+			PeerAddr(SocketAddr::V6(SocketAddrV6::new(ip, port, 0, 0)))
+		}
+	}
+}
+
+fn task_small(cx: &mut Cx, p: &mut Prng, pools: &Pools, n: usize) {
+	for i in 0..n {
+		if cx.expired() {
+			return;
+		}
+		let c = *p.pick(&pools.commits);
+		let feat = if p.bool() {
+			OutputFeatures::Plain
+		} else {
+			OutputFeatures::Coinbase
+		};
+		rt(cx, &format!("{:?}", feat), &Input::new(feat, c));
+		rt(cx, &format!("{:?}", feat), &OutputIdentifier::new(feat, &c));
+		rt(cx, "commit", &CommitWrapper::from(c));
+		let o = if !pools.cb.is_empty() && i % 5 == 0 {
+			pools.cb[i / 5 % pools.cb.len()].0
+		} else {
+			pools.outs[i % pools.outs.len()]
+		};
+		rt(cx, &format!("{:?}", o.identifier.features), &o);
+		rt(cx, "bulletproof675", &o.proof);
+		rt(cx, "bytes6", &ShortId::from_bytes(&p.bytes(6)));
+		rt(cx, "h", &gen_hash(p));
+		rt(
+			cx,
+			"tip",
+			&Tip {
+				height: p.interesting_u64(),
+				last_block_h: gen_hash(p),
+				prev_block_h: gen_hash(p),
+				total_difficulty: Difficulty::from_num(p.interesting_u64()),
+			},
+		);
+		rt(
+			cx,
+			"cp",
+			&CommitPos {
+				pos: p.interesting_u64(),
+				height: p.interesting_u64(),
+			},
+		);
+		rt(
+			cx,
+			"sums",
+			&BlockSums {
+				utxo_sum: *p.pick(&pools.commits),
+				kernel_sum: *p.pick(&pools.commits),
+			},
+		);
+		rt(
+			cx,
+			"segid",
+			&SegmentIdentifier {
+				height: p.below(256) as u8,
+				idx: p.interesting_u64(),
+			},
+		);
+		rt(cx, "diff", &Difficulty::from_num(p.interesting_u64()));
+		let plen = p.below(12);
+		rt(
+			cx,
+			&format!("path{}", plen),
+			&MerkleProof {
+				mmr_size: p.interesting_u64(),
+				path: (0..plen).map(|_| gen_hash(p)).collect(),
+			},
+		);
+		let cp = CommitPos {
+			pos: p.interesting_u64(),
+			height: p.interesting_u64(),
+		};
+		let (a, b) = (p.interesting_u64(), p.interesting_u64());
+		match p.below(5) {
+			0 => rt(cx, "single", &ListWrapper::Single { pos: cp }),
+			1 => rt(cx, "multi", &ListWrapper::<CommitPos>::Multi { head: a, tail: b }),
+			2 => rt(cx, "head", &ListEntry::Head { pos: cp, next: a }),
+			3 => rt(cx, "tail", &ListEntry::Tail { pos: cp, prev: a }),
+			_ => rt(
+				cx,
+				"middle",
+				&ListEntry::Middle {
+					pos: cp,
+					next: a,
+					prev: b,
+				},
+			),
+		}
+	}
+	// ---- output feature tags: only 0 and 1 are defined
+	let c = pools.commits[1];
+	let o = pools.outs[0];
+	for tag in 2..=255u8 {
+		let sub = format!("tag{}", tag);
+		let mut b = ref_outid(OutputFeatures::Plain, &c);
+		b[0] = tag;
+		for v in [1u32, 1000] {
+			must_reject::<Input>(cx, "Input", "unknown_output_feature_tag", &sub, v, &b, Mode::Strict);
+			must_reject::<OutputIdentifier>(cx, "OutputIdentifier", "unknown_output_feature_tag", &sub, v, &b, Mode::Strict);
+			let mut bo = ref_output(&o);
+			bo[0] = tag;
+			must_reject::<Output>(cx, "Output", "unknown_output_feature_tag", &sub, v, &bo, Mode::Strict);
+		}
+	}
+	// ---- db list tags
+	let cp = CommitPos { pos: 3, height: 4 };
+	let lw = ser::ser_vec(&ListWrapper::Single { pos: cp }, pv(1)).unwrap();
+	let le = ser::ser_vec(
+		&ListEntry::Middle {
+			pos: cp,
+			next: 1,
+			prev: 2,
+		},
+		pv(1),
+	)
+	.unwrap();
+	for tag in 0..=255u8 {
+		let sub = format!("tag{}", tag);
+		if tag > 1 {
+			let mut b = lw.clone();
+			b[0] = tag;
+			b.extend_from_slice(&[0; 16]);
+			must_reject::<ListWrapper<CommitPos>>(cx, "ListWrapper", "unknown_variant_tag", &sub, 1, &b, Mode::Strict);
+		}
+		if !(2..=4).contains(&tag) {
+			let mut b = le.clone();
+			b[0] = tag;
+			must_reject::<ListEntry<CommitPos>>(cx, "ListEntry", "unknown_variant_tag", &sub, 1, &b, Mode::Strict);
+		}
+	}
+	// ---- informational: range proof length prefix other than 675 is tolerated and padded (known trap 2.5)
+	let mut b = ref_output(&o);
+	b[34..42].copy_from_slice(&be64(10));
+	b.truncate(42 + 10);
+	probe::<Output>(cx, "rangeproof_short_length_prefix", 1, &b);
+}
+
+// ------------------------------------------------------------------ task: transactions and bodies
+
+fn max_tx_shapes(max_w: u64) -> Vec<(usize, usize, usize)> {
+	// weight = inputs + 21 outputs + 3 kernels
+	let mut v = vec![
+		(0, 0, 0),
+		(1, 0, 0),
+		(0, 1, 0),
+		(0, 0, 1),
+		(1, 1, 1),
+		(2, 2, 1),
+		(3, 2, 2),
+		(5, 3, 4),
+		(0, 4, 7),
+		(9, 1, 2),
+	];
+	// maximal bodies for this weight limit
+	let o = ((max_w / 21) as usize).min(30);
+	let rest = max_w - 21 * o as u64;
+	let k = (rest / 3) as usize;
+	let i = (rest - 3 * k as u64) as usize;
+	v.push((i, o, k));
+	let k2 = (max_w / 3).min(400) as usize;
+	v.push(((max_w - 3 * k2 as u64).min(600) as usize, 0, k2));
+	v.push((max_w.min(1500) as usize, 0, 0));
+	v
+}
+
+fn task_txs(cx: &mut Cx, p: &mut Prng, pools: &Pools, rounds: usize) {
+	let shapes = max_tx_shapes(global::max_tx_weight());
+	for r in 0..rounds {
+		for &(i, o, k) in &shapes {
+			if cx.expired() {
+				return;
+			}
+			if i + k > pools.commits.len() || o > pools.outs.len() {
+				continue;
+			}
+			for var in [InVar::Features, InVar::CommitOnly] {
+				let body = gen_body(p, pools, i, o, k, var, false);
+				let tx = Transaction {
+					offset: gen_blind(p),
+					body,
+				};
+				let shape = format!(
+					"i{}o{}k{}|{}",
+					i,
+					o,
+					k,
+					if var == InVar::Features { "feat" } else { "commit" }
+				);
+				rt(cx, &shape, &tx);
+				rt(cx, &shape, &tx.body);
+				if r == 0 || (i + o + k <= 12 && i + o + k > 0) {
+					perturb_body::<Transaction>(cx, p, "Transaction", tx.offset.as_ref(), &tx.body);
+					perturb_body::<TransactionBody>(cx, p, "TransactionBody", &[], &tx.body);
+				}
+			}
+		}
+	}
+}
+
+/// Canonical-form perturbations of a serialized body behind `prefix` (offset or header bytes).
+fn perturb_body<T: Readable + Writeable>(
+	cx: &mut Cx,
+	p: &mut Prng,
+	fam: &str,
+	prefix: &[u8],
+	body: &TransactionBody,
+) {
+	for v in VERSIONS {
+		let parts = match body_parts(body, v) {
+			Some(x) => x,
+			None => continue,
+		};
+		if !(strictly_increasing(&parts.ins_key)
+			&& strictly_increasing(&parts.outs_key)
+			&& strictly_increasing(&parts.kers_key))
+		{
+			cx.bump("harness.reference_order_disagrees");
+			cx.run
+				.inconclusive("reference sort order (hash of definition bytes) disagrees with the generated body");
+			continue;
+		}
+		let n = [parts.ins.len(), parts.outs.len(), parts.kers.len()];
+		let counts = [n[0] as u64, n[1] as u64, n[2] as u64];
+		let names = ["inputs", "outputs", "kernels"];
+		let enc = bclass(v);
+		for li in 0..3 {
+			let lists = [&parts.ins, &parts.outs, &parts.kers];
+			// swap two sorted entries -> unsorted
+			if n[li] >= 2 {
+				let a = p.usize_below(n[li] - 1);
+				let b2 = if p.bool() { a + 1 } else { p.range(a as u64 + 1, n[li] as u64 - 1) as usize };
+				let mut l = lists[li].clone();
+				l.swap(a, b2);
+				let mut ls = lists;
+				ls[li] = &l;
+				let bytes = assemble3(prefix, counts, ls);
+				must_reject::<T>(
+					cx,
+					fam,
+					&format!("unsorted_{}_{}", names[li], enc),
+					&format!("n{}|adjacent{}", n[li].min(9), b2 == a + 1),
+					v,
+					&bytes,
+					Mode::Strict,
+				);
+			}
+			// duplicate an entry (adjacent keeps the order, elsewhere also breaks it)
+			if n[li] >= 1 {
+				for adjacent in [true, false] {
+					let a = p.usize_below(n[li]);
+					let mut l = lists[li].clone();
+					let at = if adjacent { a + 1 } else { p.usize_below(n[li] + 1) };
+					l.insert(at, lists[li][a].clone());
+					let mut ls = lists;
+					ls[li] = &l;
+					let mut c = counts;
+					c[li] += 1;
+					let bytes = assemble3(prefix, c, ls);
+					must_reject::<T>(
+						cx,
+						fam,
+						&format!("duplicate_{}_{}", names[li], enc),
+						&format!("n{}|adjacent{}", n[li].min(9), adjacent),
+						v,
+						&bytes,
+						Mode::Strict,
+					);
+				}
+			}
+			// counts inconsistent with the content that follows
+			let mut alts: Vec<(u64, &str)> = vec![
+				(counts[li] + 1, "plus1"),
+				(1 << 16, "2p16"),
+				(1 << 32, "2p32"),
+				(1 << 59, "2p59"),
+				(u64::MAX, "max"),
+			];
+			if counts[li] > 0 {
+				alts.push((counts[li] - 1, "minus1"));
+				alts.push((0, "zero"));
+			}
+			for (c2, name) in alts {
+				if c2 == counts[li] {
+					continue;
+				}
+				let mut c = counts;
+				c[li] = c2;
+				let bytes = assemble3(prefix, c, lists);
+				must_reject::<T>(
+					cx,
+					fam,
+					&format!("count_mismatch_{}_{}", names[li], enc),
+					&format!("{}|n{}", name, n[li].min(9)),
+					v,
+					&bytes,
+					Mode::CountLike,
+				);
+			}
+		}
+	}
+}
+
+// ------------------------------------------------------------------ task: headers, proofs, proof of work
+
+fn task_headers(cx: &mut Cx, p: &mut Prng, ebs: &[u8], per_eb: usize) {
+	let n = global::proofsize();
+	for &eb in ebs {
+		for j in 0..per_eb {
+			if cx.expired() {
+				return;
+			}
+			let hv = if j < 5 {
+				1 + j as u16
+			} else {
+				*p.pick(&[1u16, 2, 3, 4, 5, 0, 6, 0xffff])
+			};
+			let (h, shape) = gen_header(p, eb, hv);
+			rt(cx, &shape, &h);
+			rt(cx, &format!("eb{}|{}", eb, j % 7), &h.pow);
+			rt(cx, &format!("eb{}|{}", eb, j % 7), &h.pow.proof);
+			if j == 0 && proof_decodable(&h.pow.proof) {
+				perturb_proof(cx, p, &h);
+			}
+		}
+		// a proof whose packed form is under 8 bytes cannot be carried (format limit), counted by rt()
+	}
+	let _ = n;
+}
+
+fn perturb_proof(cx: &mut Cx, p: &mut Prng, h: &BlockHeader) {
+	let eb = h.pow.proof.edge_bits;
+	let n = global::proofsize();
+	let pb = ref_proof(&h.pow.proof);
+	let hb = ref_header(h);
+	let data_bits = n * eb as usize;
+	let pad = pb[1..].len() * 8 - data_bits;
+	// every padding bit (and all of them) set
+	let mut masks: Vec<u8> = (0..pad).map(|k| 1u8 << (7 - k)).collect();
+	if pad > 1 {
+		masks.push(!(0xffu8 >> pad));
+	}
+	for m in masks {
+		let sub = format!("eb{}|pad{}|mask{:02x}", eb, pad, m);
+		let mut b = pb.clone();
+		*b.last_mut().unwrap() |= m;
+		must_reject::<Proof>(cx, "Proof", "padding_bits_nonzero", &sub, 1, &b, Mode::Strict);
+		let mut b = hb.clone();
+		*b.last_mut().unwrap() |= m;
+		for v in [1u32, 1000] {
+			must_reject::<BlockHeader>(cx, "BlockHeader", "proof_padding_bits_nonzero", &sub, v, &b, Mode::Strict);
+		}
+	}
+	// edge bits outside 1..=63 are not a value of the field
+	if eb % 8 == 3 || eb == 63 {
+		for bad in (64..=255u16).chain(0..1) {
+			let mut b = pb.clone();
+			b[0] = bad as u8;
+			b.extend_from_slice(&vec![0u8; 42 * 32]);
+			must_reject::<Proof>(cx, "Proof", "edge_bits_out_of_range", &format!("eb{}", bad), 1, &b, Mode::Strict);
+		}
+		let at = hb.len() - pb.len();
+		for bad in [0u8, 64, 65, 128, 255] {
+			let mut b = hb.clone();
+			b[at] = bad;
+			b.extend_from_slice(&vec![0u8; 42 * 32]);
+			must_reject::<BlockHeader>(cx, "BlockHeader", "edge_bits_out_of_range", &format!("eb{}", bad), 2, &b, Mode::Strict);
+		}
+	}
+	// timestamps outside the representable date range are not a header value
+	for (ts, name) in [
+		(i64::MIN, "i64min"),
+		(ts_min() - 1, "below_min"),
+		(ts_max() + 1, "above_max"),
+		(ts_max() + 86_400, "max_plus_day"),
+		(i64::MAX, "i64max"),
+	] {
+		let mut b = hb.clone();
+		b[10..18].copy_from_slice(&ts.to_be_bytes());
+		must_reject::<BlockHeader>(
+			cx,
+			"BlockHeader",
+			"timestamp_out_of_range",
+			name,
+			*p.pick(&VERSIONS),
+			&b,
+			Mode::Strict,
+		);
+	}
+}
+
+/// Header values in the last representable day: writable, but beyond the decoder's date check.
+fn probe_last_day(cx: &mut Cx, p: &mut Prng) {
+	let (mut h, _) = gen_header(p, global::min_edge_bits(), 1);
+	if let Some(ts) = DateTime::<Utc>::from_timestamp(ts_max() + 3600, 0) {
+		h.timestamp = ts;
+		if let Ok(b) = ser::ser_vec(&h, pv(1)) {
+			match dec_bin::<BlockHeader>(&b, 1) {
+				Dec::Err(_) => cx.bump("not_carried.header_timestamp_in_last_representable_day"),
+				_ => cx.bump("info.header_timestamp_last_day_decodes"),
+			}
+		}
+	}
+}
+
+// ------------------------------------------------------------------ task: blocks and compact blocks
+
+fn block_shapes(max_w: u64) -> Vec<(usize, usize, usize)> {
+	let mut v = vec![(0, 0, 0), (0, 1, 1), (1, 2, 2), (3, 3, 2), (2, 5, 6), (8, 2, 3)];
+	let o = ((max_w / 21) as usize).min(36);
+	let rest = max_w - 21 * o as u64;
+	let k = ((rest / 3) as usize).min(300);
+	let i = (rest - 3 * k as u64).min(900) as usize;
+	v.push((i, o, k));
+	v
+}
+
+/// Reference-built compact block for `block` with harness-chosen nonce, decoded once to obtain the value.
+fn compact_from_reference(cx: &mut Cx, block: &Block, nonce: u64) -> Option<CompactBlock> {
+	let hh = block.header.hash();
+	let mut outs: Vec<&Output> = block.outputs().iter().filter(|o| o.is_coinbase()).collect();
+	outs.sort_by_key(|o| h_of(&ref_outid(o.identifier.features, &o.identifier.commit)));
+	let mut kf: Vec<&TxKernel> = block.kernels().iter().filter(|k| k.is_coinbase()).collect();
+	kf.sort_by_key(|k| h_of(&ref_kernel(k, 1)));
+	let mut ids: Vec<ShortId> = block
+		.kernels()
+		.iter()
+		.filter(|k| !k.is_coinbase())
+		.map(|k| k.short_id(&hh, nonce))
+		.collect();
+	ids.sort_by_key(|i| h_of(i.as_ref()));
+	ids.dedup_by(|a, b| a.as_ref() == b.as_ref());
+	let v = 1000;
+	let o: Vec<Vec<u8>> = outs.iter().map(|o| ref_output(o)).collect();
+	let k: Vec<Vec<u8>> = kf.iter().map(|k| ref_kernel(k, v)).collect();
+	let i: Vec<Vec<u8>> = ids.iter().map(|i| i.as_ref().to_vec()).collect();
+	let mut pre = ref_header(&block.header);
+	pre.extend_from_slice(&be64(nonce));
+	let bytes = assemble3(&pre, [o.len() as u64, k.len() as u64, i.len() as u64], [&o, &k, &i]);
+	match dec_bin::<CompactBlock>(&bytes, v) {
+		Dec::Ok(cb, used) if used == bytes.len() => {
+			// the decoded value must hold exactly what the reference encoding was built from
+			let ok = cb.header == block.header
+				&& cb.nonce == nonce
+				&& cb.out_full().len() == outs.len()
+				&& cb.kern_full().len() == kf.len()
+				&& cb.kern_ids().len() == ids.len()
+				&& cb.out_full().iter().zip(outs.iter()).all(|(a, b)| diff_output(a, b).is_none())
+				&& cb.kern_full().iter().zip(kf.iter()).all(|(a, b)| diff_kernel(a, b).is_none())
+				&& cb.kern_ids().iter().zip(ids.iter()).all(|(a, b)| a.as_ref() == b.as_ref());
+			if !ok {
+				cx.violation(
+					"type=CompactBlock;phase=reference_decode;event=value_mismatch",
+					"compact block decoded from its reference encoding does not hold the encoded parts",
+					replay_of("CompactBlock", cx.ct, v, "reference", &bytes, ""),
+				);
+				return None;
+			}
+			Some(cb)
+		}
+		Dec::Ok(_, used) => {
+			cx.violation(
+				"type=CompactBlock;phase=reference_decode;event=consumed_length_mismatch",
+				&format!("consumed {} of {}", used, bytes.len()),
+				replay_of("CompactBlock", cx.ct, v, "reference", &bytes, ""),
+			);
+			None
+		}
+		Dec::Err(e) => {
+			cx.violation(
+				"type=CompactBlock;phase=reference_decode;event=decode_error",
+				&format!("canonical reference encoding of a compact block is refused: {:?}", e),
+				replay_of("CompactBlock", cx.ct, v, "reference", &bytes, &format!("{:?}", e)),
+			);
+			None
+		}
+		Dec::Panic(pn) => {
+			cx.violation(
+				&format!("type=CompactBlock;phase=reference_decode;event=decode_panic@{}", pn.location),
+				&pn.message,
+				replay_of("CompactBlock", cx.ct, v, "reference", &bytes, ""),
+			);
+			None
+		}
+	}
+}
+
+fn perturb_compact<T: Readable + Writeable>(cx: &mut Cx, p: &mut Prng, fam: &str, cb: &CompactBlock) {
+	for v in VERSIONS {
+		let outs: Vec<Vec<u8>> = cb.out_full().iter().map(ref_output).collect();
+		let kers: Vec<Vec<u8>> = cb.kern_full().iter().map(|k| ref_kernel(k, v)).collect();
+		let ids: Vec<Vec<u8>> = cb.kern_ids().iter().map(|i| i.as_ref().to_vec()).collect();
+		let mut pre = ref_header(&cb.header);
+		pre.extend_from_slice(&be64(cb.nonce));
+		let n = [outs.len(), kers.len(), ids.len()];
+		let counts = [n[0] as u64, n[1] as u64, n[2] as u64];
+		let names = ["out_full", "kern_full", "kern_ids"];
+		for li in 0..3 {
+			let lists = [&outs, &kers, &ids];
+			if n[li] >= 2 {
+				let a = p.usize_below(n[li] - 1);
+				let mut l = lists[li].clone();
+				l.swap(a, a + 1);
+				let mut ls = lists;
+				ls[li] = &l;
+				must_reject::<T>(
+					cx,
+					fam,
+					&format!("unsorted_{}", names[li]),
+					&format!("n{}", n[li].min(9)),
+					v,
+					&assemble3(&pre, counts, ls),
+					Mode::Strict,
+				);
+			}
+			if n[li] >= 1 {
+				let a = p.usize_below(n[li]);
+				let mut l = lists[li].clone();
+				l.insert(a + 1, lists[li][a].clone());
+				let mut ls = lists;
+				ls[li] = &l;
+				let mut c = counts;
+				c[li] += 1;
+				must_reject::<T>(
+					cx,
+					fam,
+					&format!("duplicate_{}", names[li]),
+					&format!("n{}", n[li].min(9)),
+					v,
+					&assemble3(&pre, c, ls),
+					Mode::Strict,
+				);
+			}
+			let mut alts: Vec<(u64, &str)> = vec![(counts[li] + 1, "plus1"), (1 << 32, "2p32"), (u64::MAX, "max")];
+			if counts[li] > 0 {
+				alts.push((counts[li] - 1, "minus1"));
+				alts.push((0, "zero"));
+			}
+			for (c2, name) in alts {
+				let mut c = counts;
+				c[li] = c2;
+				must_reject::<T>(
+					cx,
+					fam,
+					&format!("count_mismatch_{}", names[li]),
+					name,
+					v,
+					&assemble3(&pre, c, lists),
+					Mode::CountLike,
+				);
+			}
+		}
+	}
+}
+
+fn task_blocks(cx: &mut Cx, p: &mut Prng, pools: &Pools, rounds: usize) {
+	let shapes = block_shapes(global::max_block_weight());
+	let min_eb = global::min_edge_bits();
+	for r in 0..rounds {
+		for &(i, o, k) in &shapes {
+			if cx.expired() {
+				return;
+			}
+			if i + k > pools.commits.len() {
+				continue;
+			}
+			for var in [InVar::Features, InVar::CommitOnly] {
+				let eb = if p.bool() { min_eb } else { p.range(10, 63) as u8 };
+				let hv = 1 + p.below(5) as u16;
+				let (header, hs) = gen_header(p, eb, hv);
+				let body = gen_body(p, pools, i, o, k, var, true);
+				let block = Block { header, body };
+				let shape = format!(
+					"i{}o{}k{}|{}|{}",
+					i,
+					o.min(pools.outs.len() + pools.cb.len()),
+					k,
+					if var == InVar::Features { "feat" } else { "commit" },
+					hs
+				);
+				rt(cx, &shape, &block);
+				if r == 0 || i + o + k <= 12 {
+					perturb_body::<Block>(cx, p, "Block", &ref_header(&block.header), &block.body);
+				}
+				// compact blocks: library conversion (random nonce from the library) and reference-built
+				let cshape = format!(
+					"cbout{}|kfull{}|ids{}|eb{}",
+					block.outputs().iter().filter(|o| o.is_coinbase()).count(),
+					block.kernels().iter().filter(|k| k.is_coinbase()).count().min(9),
+					block.kernels().iter().filter(|k| !k.is_coinbase()).count().min(20),
+					eb
+				);
+				let cb = CompactBlock::from(block.clone());
+				rt(cx, &format!("from_block|{}", cshape), &cb);
+				if let Some(cb2) = compact_from_reference(cx, &block, p.next_u64()) {
+					rt(cx, &format!("reference|{}", cshape), &cb2);
+					if r == 0 || i + o + k <= 12 {
+						perturb_compact::<CompactBlock>(cx, p, "CompactBlock", &cb2);
+					}
+				}
+			}
+		}
+	}
+}
+
+// ------------------------------------------------------------------ task: MMR segments
+
+fn build_mmr<T: PMMRable>(items: &[T]) -> VecBackend<T> {
+	let mut ba = VecBackend::new();
+	{
+		let mut m = PMMR::new(&mut ba);
+		for it in items {
+			m.push(it).expect("mmr push");
+		}
+	}
+	ba
+}
+
+fn proof_hashes(pf: &SegmentProof) -> Vec<Hash> {
+	let b = ser::ser_vec(pf, pv(1)).expect("segment proof ser");
+	b[8..].chunks(32).map(Hash::from_vec).collect()
+}
+
+/// Reference encoding of a segment from its parts; returns the bytes and the offsets of the three count fields.
+fn ref_segment<T: Clone>(
+	seg: &Segment<T>,
+	elem: &dyn Fn(&T) -> Vec<u8>,
+) -> (Vec<u8>, [usize; 3], (Vec<u64>, Vec<u64>)) {
+	let (id, hash_pos, hashes, leaf_pos, leaf_data, proof) = seg.clone().parts();
+	let mut o = vec![id.height];
+	o.extend_from_slice(&be64(id.idx));
+	let c0 = o.len();
+	o.extend_from_slice(&be64(hashes.len() as u64));
+	for p in &hash_pos {
+		o.extend_from_slice(&be64(1 + p));
+	}
+	for h in &hashes {
+		o.extend_from_slice(h.as_bytes());
+	}
+	let c1 = o.len();
+	o.extend_from_slice(&be64(leaf_data.len() as u64));
+	for p in &leaf_pos {
+		o.extend_from_slice(&be64(1 + p));
+	}
+	for d in &leaf_data {
+		o.extend_from_slice(&elem(d));
+	}
+	let c2 = o.len();
+	let ph = proof_hashes(&proof);
+	o.extend_from_slice(&be64(ph.len() as u64));
+	for h in &ph {
+		o.extend_from_slice(h.as_bytes());
+	}
+	(o, [c0, c1, c2], (hash_pos, leaf_pos))
+}
+
+fn perturb_segment<T: Clone + Readable + Writeable>(
+	cx: &mut Cx,
+	p: &mut Prng,
+	fam: &str,
+	seg: &Segment<T>,
+	elem: &dyn Fn(&T, u32) -> Vec<u8>,
+) where
+	Segment<T>: Case,
+{
+	for v in [1u32, 3] {
+		let (bytes, cnt, (hash_pos, leaf_pos)) = ref_segment(seg, &|t| elem(t, v));
+		match ser::ser_vec(seg, pv(v)) {
+			Ok(b) if b == bytes => cx.bump("refenc.compared"),
+			_ => {
+				cx.bump("refenc.compared");
+				cx.bump("refenc.mismatch");
+				cx.run
+					.inconclusive(&format!("reference segment encoder disagrees for {}", fam));
+				continue;
+			}
+		}
+		// positions must be strictly increasing (and >= 1 on the wire)
+		for (which, base, pos) in [("hash_pos", cnt[0] + 8, &hash_pos), ("leaf_pos", cnt[1] + 8, &leaf_pos)] {
+			let n = pos.len();
+			let at = |i: usize| base + 8 * i;
+			if n >= 2 {
+				let a = p.usize_below(n - 1);
+				let mut b = bytes.clone();
+				let (x, y) = (at(a), at(a + 1));
+				for k in 0..8 {
+					b.swap(x + k, y + k);
+				}
+				must_reject::<Segment<T>>(cx, fam, &format!("unsorted_{}", which), &format!("n{}", n.min(9)), v, &b, Mode::Strict);
+				let mut b = bytes.clone();
+				let src: Vec<u8> = b[at(a)..at(a) + 8].to_vec();
+				b[at(a + 1)..at(a + 1) + 8].copy_from_slice(&src);
+				must_reject::<Segment<T>>(cx, fam, &format!("duplicate_{}", which), &format!("n{}", n.min(9)), v, &b, Mode::Strict);
+			}
+			if n >= 1 {
+				let mut b = bytes.clone();
+				b[at(0)..at(0) + 8].copy_from_slice(&be64(0));
+				must_reject::<Segment<T>>(cx, fam, &format!("zero_{}", which), &format!("n{}", n.min(9)), v, &b, Mode::Strict);
+			}
+		}
+		for (ci, name) in [(0usize, "n_hashes"), (1, "n_leaves"), (2, "n_proof")] {
+			let cur = u64::from_be_bytes(bytes[cnt[ci]..cnt[ci] + 8].try_into().unwrap());
+			let mut alts = vec![(cur + 1, "plus1"), (1_000_000, "limit"), (1_000_001, "over_limit"), (u64::MAX, "max")];
+			if cur > 0 {
+				alts.push((cur - 1, "minus1"));
+				alts.push((0, "zero"));
+			}
+			for (c2, an) in alts {
+				let mut b = bytes.clone();
+				b[cnt[ci]..cnt[ci] + 8].copy_from_slice(&be64(c2));
+				must_reject::<Segment<T>>(cx, fam, &format!("count_mismatch_{}", name), an, v, &b, Mode::CountLike);
+			}
+		}
+	}
+}
+
+fn seg_ids(n_leaves: u64, max_h: u8) -> Vec<SegmentIdentifier> {
+	let mut v = vec![];
+	for height in 0..=max_h {
+		let cap = 1u64 << height;
+		let n = (n_leaves + cap - 1) / cap;
+		for idx in 0..n {
+			v.push(SegmentIdentifier { height, idx });
+		}
+	}
+	v
+}
+
+fn task_segments(cx: &mut Cx, p: &mut Prng, pools: &Pools, sizes: &[usize], max_ids: usize) {
+	for &n in sizes {
+		if cx.expired() {
+			return;
+		}
+		// three leaf types with data stored as elements
+		let outids: Vec<OutputIdentifier> = (0..n)
+			.map(|i| {
+				OutputIdentifier::new(
+					if i % 3 == 0 {
+						OutputFeatures::Coinbase
+					} else {
+						OutputFeatures::Plain
+					},
+					&pools.commits[i % pools.commits.len()],
+				)
+			})
+			.collect();
+		let proofs: Vec<RangeProof> = (0..n).map(|i| pools.outs[i % pools.outs.len()].proof).collect();
+		let kernels: Vec<TxKernel> = (0..n).map(|i| gen_kernel(p, pools, (i % 4) as u64).0).collect();
+		let bo = build_mmr(&outids);
+		let bp = build_mmr(&proofs);
+		let bk = build_mmr(&kernels);
+		let mut ids = seg_ids(n as u64, 5);
+		p.shuffle(&mut ids);
+		ids.truncate(max_ids);
+		for id in ids {
+			if cx.expired() {
+				return;
+			}
+			for prunable in [false, true] {
+				let shape = format!("leaves{}|h{}|last{}|prunable{}", n.min(40), id.height, (id.idx + 1) << id.height >= n as u64, prunable);
+				let bh = gen_hash(p);
+				if let Ok(s) = Segment::from_pmmr(id, &ReadonlyPMMR::at(&bo, bo.size()), prunable) {
+					rt(cx, &shape, &s);
+					rt(cx, &shape, s.proof());
+					if id.idx == 0 {
+						perturb_segment(cx, p, "Segment<OutputIdentifier>", &s, &|t: &OutputIdentifier, _| {
+							ref_outid(t.features, &t.commit)
+						});
+					}
+					rt(
+						cx,
+						&shape,
+						&OutputSegmentResponse {
+							response: SegmentResponse {
+								block_hash: bh,
+								segment: s.clone(),
+							},
+							output_bitmap_root: gen_hash(p),
+						},
+					);
+					rt(cx, &shape, &SegmentResponse { block_hash: bh, segment: s });
+				} else {
+					cx.bump("harness.segment_from_pmmr_failed");
+				}
+				if let Ok(s) = Segment::from_pmmr(id, &ReadonlyPMMR::at(&bp, bp.size()), prunable) {
+					rt(cx, &shape, &s);
+					if id.idx == 0 && id.height <= 2 {
+						perturb_segment(cx, p, "Segment<RangeProof>", &s, &|t: &RangeProof, _| {
+							let mut o = be64(t.plen as u64).to_vec();
+							o.extend_from_slice(&t.proof[..t.plen]);
+							o
+						});
+					}
+					rt(cx, &shape, &SegmentResponse { block_hash: bh, segment: s });
+				}
+				if let Ok(s) = Segment::from_pmmr(id, &ReadonlyPMMR::at(&bk, bk.size()), prunable) {
+					rt(cx, &shape, &s);
+					if id.idx == 0 {
+						perturb_segment(cx, p, "Segment<TxKernel>", &s, &|t: &TxKernel, v| ref_kernel(t, v));
+					}
+					rt(cx, &shape, &SegmentResponse { block_hash: bh, segment: s });
+				}
+			}
+		}
+		// segments assembled from parts: sparse positions, hashes without leaves and vice versa
+		for _ in 0..4 {
+			let nh = p.usize_below(6);
+			let nl = p.usize_below(6).min(n);
+			let mut hp: Vec<u64> = distinct_idx(p, 200, nh).into_iter().map(|x| x as u64).collect();
+			hp.sort_unstable();
+			let mut lp: Vec<u64> = distinct_idx(p, 200, nl).into_iter().map(|x| x as u64 + 1).collect();
+			lp.sort_unstable();
+			// from_parts asserts "last == 0 || pos > last": keep positions strictly increasing and non-zero after the first
+			let proof = Segment::from_pmmr(
+				SegmentIdentifier { height: 1, idx: 0 },
+				&ReadonlyPMMR::at(&bk, bk.size()),
+				false,
+			)
+			.map(|s| s.proof().clone())
+			.unwrap();
+			let seg = Segment::from_parts(
+				SegmentIdentifier {
+					height: p.below(64) as u8,
+					idx: p.interesting_u64() >> 8,
+				},
+				hp.clone(),
+				(0..nh).map(|_| gen_hash(p)).collect(),
+				lp.clone(),
+				kernels[..nl].to_vec(),
+				proof,
+			);
+			rt(cx, &format!("from_parts|h{}|l{}", nh, nl), &seg);
+		}
+	}
+}
+
+// ------------------------------------------------------------------ task: bitmap segments
+
+/// Chunk contents as sorted set-bit indices (0..1024).
+fn gen_chunk_bits(p: &mut Prng, class: u64) -> Vec<u16> {
+	match class {
+		0 => vec![],
+		1 => {
+			// sparse
+			let k = p.range(1, 20) as usize;
+			let mut v: Vec<u16> = distinct_idx(p, 1024, k).into_iter().map(|x| x as u16).collect();
+			v.sort_unstable();
+			v
+		}
+		2 => {
+			// abundant
+			let k = p.range(0, 12) as usize;
+			let holes: HashSet<usize> = distinct_idx(p, 1024, k).into_iter().collect();
+			(0..1024usize).filter(|i| !holes.contains(i)).map(|x| x as u16).collect()
+		}
+		_ => (0..1024u16).filter(|_| p.bool()).collect(),
+	}
+}
+
+fn chunk_of(bits: &[u16]) -> BitmapChunk {
+	let mut c = BitmapChunk::new();
+	for b in bits {
+		c.set(*b as u64, true);
+	}
+	c
+}
+
+/// Reference encoding of the blocks of a bitmap segment (64 chunks per block; sparse / abundant / raw by occupancy).
+/// Returns the bytes and, per block, (offset of the block, mode, number of listed indices).
+fn ref_bitmap_blocks(chunks: &[Vec<u16>]) -> (Vec<u8>, Vec<(usize, u8, usize)>) {
+	let mut o = vec![];
+	let mut meta = vec![];
+	for blk in chunks.chunks(64) {
+		let off = o.len();
+		let nbits = blk.len() * 1024;
+		let mut pos: Vec<u16> = vec![];
+		for (ci, c) in blk.iter().enumerate() {
+			for b in c {
+				pos.push((ci * 1024) as u16 + *b);
+			}
+		}
+		let count_pos = pos.len();
+		let count_neg = nbits - count_pos;
+		o.push(blk.len() as u8);
+		if count_pos < 4096 {
+			o.push(1);
+			o.extend_from_slice(&(count_pos as u16).to_be_bytes());
+			for x in &pos {
+				o.extend_from_slice(&x.to_be_bytes());
+			}
+			meta.push((off, 1, count_pos));
+		} else if count_neg < 4096 {
+			o.push(2);
+			o.extend_from_slice(&(count_neg as u16).to_be_bytes());
+			let set: HashSet<u16> = pos.iter().cloned().collect();
+			for x in 0..nbits {
+				if !set.contains(&(x as u16)) {
+					o.extend_from_slice(&(x as u16).to_be_bytes());
+				}
+			}
+			meta.push((off, 2, count_neg));
+		} else {
+			o.push(0);
+			let mut raw = vec![0u8; nbits / 8];
+			for x in &pos {
+				raw[*x as usize / 8] |= 0x80 >> (*x % 8);
+			}
+			o.extend_from_slice(&raw);
+			meta.push((off, 0, 0));
+		}
+	}
+	(o, meta)
+}
+
+fn task_bitmap(cx: &mut Cx, p: &mut Prng, rounds: usize, big: bool) {
+	// a proof to attach: taken from an honest accumulator segment
+	let mut acc = BitmapAccumulator::new();
+	let idx: Vec<u64> = (0..300_000u64).filter(|i| i % 7 != 3 && (i / 1024) % 5 != 4).collect();
+	acc.init(idx, 300_000).expect("bitmap accumulator");
+	let n_acc = pmmr::n_leaves(acc.readonly_pmmr().unpruned_size());
+	// honest segments straight from the accumulator
+	for height in [0u8, 3, 6, 7, 9] {
+		let cap = 1u64 << height;
+		for idx in 0..((n_acc + cap - 1) / cap).min(6) {
+			if cx.expired() {
+				return;
+			}
+			let id = SegmentIdentifier { height, idx };
+			if let Ok(seg) = Segment::from_pmmr(id, &acc.readonly_pmmr(), false) {
+				bitmap_case(cx, p, &format!("accumulator|h{}", height), seg, None);
+			}
+		}
+	}
+	let proof = Segment::from_pmmr(SegmentIdentifier { height: 2, idx: 1 }, &acc.readonly_pmmr(), false)
+		.expect("segment")
+		.proof()
+		.clone();
+	for r in 0..rounds {
+		// (height, number of chunks, density class per block)
+		let mut plans: Vec<(u8, usize, u64)> = vec![
+			(0, 1, 1),
+			(0, 1, 2),
+			(0, 1, 3),
+			(3, 8, 3),
+			(3, 5, 1),
+			(6, 64, 1),
+			(6, 64, 2),
+			(6, 64, 3),
+			(7, 128, 3),
+			(7, 65, 2),
+			(7, 100, 4),
+			(8, 200, 4),
+			(6, 9, 3),
+		];
+		if big && r == 0 {
+			plans.push((13, 8192, 4));
+			plans.push((10, 1000, 4));
+		}
+		for (height, n_chunks, class) in plans {
+			if cx.expired() {
+				return;
+			}
+			let chunks: Vec<Vec<u16>> = (0..n_chunks)
+				.map(|ci| {
+					let c = if class == 4 { ((ci / 64) as u64 + r as u64) % 4 } else { class };
+					gen_chunk_bits(p, c)
+				})
+				.collect();
+			let idx = p.below(5);
+			let offset = idx << height;
+			let seg = Segment::from_parts(
+				SegmentIdentifier { height, idx },
+				vec![],
+				vec![],
+				(0..n_chunks as u64).map(|i| pmmr::insertion_to_pmmr_index(offset + i)).collect(),
+				chunks.iter().map(|c| chunk_of(c)).collect(),
+				proof.clone(),
+			);
+			bitmap_case(cx, p, &format!("parts|h{}|chunks{}|class{}", height, n_chunks, class), seg, Some(&chunks));
+		}
+	}
+}
+
+fn bitmap_case(cx: &mut Cx, p: &mut Prng, shape: &str, seg: Segment<BitmapChunk>, chunks: Option<&[Vec<u16>]>) {
+	let id = seg.identifier();
+	let bs = BitmapSegment::from(seg.clone());
+	rt(cx, shape, &bs);
+	rt(
+		cx,
+		shape,
+		&OutputBitmapSegmentResponse {
+			block_hash: gen_hash(p),
+			segment: bs.clone(),
+			output_root: gen_hash(p),
+		},
+	);
+	// Segment<BitmapChunk> travels as a BitmapSegment: the segment must come back equal
+	for v in VERSIONS {
+		cx.eval(&format!("rt|Segment<BitmapChunk>|{}|v{}", shape, v));
+		let bytes = ser::ser_vec(&bs, pv(v)).expect("bitmap segment ser");
+		match dec_bin::<BitmapSegment>(&bytes, v) {
+			Dec::Ok(b2, _) => match catch(|| b2.into_segment()) {
+				Ok(Ok(s2)) if s2 == seg => cx.bump(&format!("rt.Segment<BitmapChunk>.v{}", v)),
+				other => cx.violation(
+					"type=Segment<BitmapChunk>;phase=roundtrip;event=value_mismatch",
+					&format!(
+						"segment of bitmap chunks does not survive transport as BitmapSegment: {}",
+						short(format!("{:?}", other.map(|r| r.map(|_| "different segment")).map_err(|p| p.message)))
+					),
+					replay_of("Segment<BitmapChunk>", cx.ct, v, shape, &bytes, ""),
+				),
+			},
+			_ => {} // reported by rt() above
+		}
+	}
+	let chunks = match chunks {
+		Some(c) => c,
+		None => return,
+	};
+	// reference encoding and perturbations
+	let (blocks, meta) = ref_bitmap_blocks(chunks);
+	let ph = proof_hashes(seg.proof());
+	let mut bytes = vec![id.height];
+	bytes.extend_from_slice(&be64(id.idx));
+	bytes.extend_from_slice(&(meta.len() as u16).to_be_bytes());
+	let b0 = bytes.len();
+	bytes.extend_from_slice(&blocks);
+	bytes.extend_from_slice(&be64(ph.len() as u64));
+	for h in &ph {
+		bytes.extend_from_slice(h.as_bytes());
+	}
+	cx.bump("refenc.compared");
+	if ser::ser_vec(&bs, pv(1)).ok().as_deref() != Some(&bytes[..]) {
+		cx.bump("refenc.mismatch");
+		cx.run
+			.inconclusive(&format!("reference bitmap segment encoder disagrees for {}", shape));
+		return;
+	}
+	for (off, mode, _) in &meta {
+		cx.bump(&format!("bitmap_block_mode.{}", ["raw", "positive", "negative"][*mode as usize]));
+		let _ = off;
+	}
+	let fam = "BitmapSegment";
+	let v = 1;
+	// block count
+	for (c2, name) in [(0u16, "zero"), (meta.len() as u16 + 1, "plus1"), (0xffff, "max")] {
+		let mut b = bytes.clone();
+		b[9..11].copy_from_slice(&c2.to_be_bytes());
+		let mode = if c2 == 0 { Mode::Strict } else { Mode::CountLike };
+		must_reject::<BitmapSegment>(cx, fam, "count_mismatch_n_blocks", name, v, &b, mode);
+	}
+	// identifier height above the served range, or too small for the chunks carried
+	for hgt in [14u8, 15, 64, 255] {
+		let mut b = bytes.clone();
+		b[0] = hgt;
+		must_reject::<BitmapSegment>(cx, fam, "height_out_of_range", &format!("h{}", hgt), v, &b, Mode::Strict);
+	}
+	if chunks.len() > 1 {
+		let mut h2 = id.height;
+		while (1usize << h2) >= chunks.len() && h2 > 0 {
+			h2 -= 1;
+		}
+		if (1usize << h2) < chunks.len() {
+			let mut b = bytes.clone();
+			b[0] = h2;
+			must_reject::<BitmapSegment>(cx, fam, "more_chunks_than_segment_capacity", &format!("h{}", h2), v, &b, Mode::Strict);
+		}
+	}
+	let (off0, mode0, n0) = meta[0];
+	let o = b0 + off0;
+	// serialization mode tag: only 0, 1, 2 are defined
+	for tag in 3..=255u8 {
+		let mut b = bytes.clone();
+		b[o + 1] = tag;
+		must_reject::<BitmapSegment>(cx, fam, "unknown_block_mode_tag", &format!("tag{}", tag), v, &b, Mode::Strict);
+	}
+	// chunk count of a block above 64
+	for nc in [65u8, 128, 255] {
+		let mut b = bytes.clone();
+		b[o] = nc;
+		must_reject::<BitmapSegment>(cx, fam, "block_chunk_count_out_of_range", &format!("n{}", nc), v, &b, Mode::Strict);
+	}
+	// a non-final block that is not full / a final block with no chunk
+	if meta.len() >= 2 {
+		let mut b = bytes.clone();
+		b[o] = 63;
+		must_reject::<BitmapSegment>(cx, fam, "count_mismatch_nonfinal_block_not_full", "63", v, &b, Mode::CountLike);
+	}
+	{
+		let (offl, _, _) = meta[meta.len() - 1];
+		let mut b = bytes.clone();
+		b[b0 + offl] = 0;
+		must_reject::<BitmapSegment>(cx, fam, "count_mismatch_final_block_empty", "0", v, &b, Mode::CountLike);
+	}
+	if mode0 != 0 && n0 >= 2 {
+		let nbits = (chunks.len().min(64) * 1024) as u32;
+		// index outside the block
+		if nbits < 65536 {
+			let mut b = bytes.clone();
+			b[o + 4..o + 6].copy_from_slice(&(nbits as u16).to_be_bytes());
+			must_reject::<BitmapSegment>(cx, fam, "index_outside_block", &format!("bits{}", nbits), v, &b, Mode::Strict);
+		}
+		// listed-index count inconsistent with the list
+		for (c2, name) in [(n0 as u16 + 1, "plus1"), (n0 as u16 - 1, "minus1"), (0xffff, "max")] {
+			let mut b = bytes.clone();
+			b[o + 2..o + 4].copy_from_slice(&c2.to_be_bytes());
+			must_reject::<BitmapSegment>(cx, fam, "count_mismatch_block_indices", name, v, &b, Mode::CountLike);
+		}
+		// informational (the format does not define an order / uniqueness of the listed indices, nor a unique mode)
+		let mut b = bytes.clone();
+		for k in 0..2 {
+			b.swap(o + 4 + k, o + 6 + k);
+		}
+		probe::<BitmapSegment>(cx, "bitmap_block_indices_unsorted", v, &b);
+		let mut b = bytes.clone();
+		let first: Vec<u8> = b[o + 4..o + 6].to_vec();
+		b[o + 6..o + 8].copy_from_slice(&first);
+		probe::<BitmapSegment>(cx, "bitmap_block_indices_duplicate", v, &b);
+	}
+}
+
+// ------------------------------------------------------------------ task: p2p messages
+
+const ALL_TYPES: [Type; 29] = [
+	Type::Error,
+	Type::Hand,
+	Type::Shake,
+	Type::Ping,
+	Type::Pong,
+	Type::GetPeerAddrs,
+	Type::PeerAddrs,
+	Type::GetHeaders,
+	Type::Header,
+	Type::Headers,
+	Type::GetBlock,
+	Type::Block,
+	Type::GetCompactBlock,
+	Type::CompactBlock,
+	Type::StemTransaction,
+	Type::Transaction,
+	Type::TxHashSetRequest,
+	Type::TxHashSetArchive,
+	Type::BanReason,
+	Type::GetTransaction,
+	Type::TransactionKernel,
+	Type::GetOutputBitmapSegment,
+	Type::OutputBitmapSegment,
+	Type::GetOutputSegment,
+	Type::OutputSegment,
+	Type::GetRangeProofSegment,
+	Type::RangeProofSegment,
+	Type::GetKernelSegment,
+	Type::KernelSegment,
+];
+
+const ALL_BANS: [ReasonForBan; 8] = [
+	ReasonForBan::None,
+	ReasonForBan::BadBlock,
+	ReasonForBan::BadCompactBlock,
+	ReasonForBan::BadBlockHeader,
+	ReasonForBan::BadTxHashSet,
+	ReasonForBan::ManualBan,
+	ReasonForBan::FraudHeight,
+	ReasonForBan::BadHandshake,
+];
+
+fn gen_caps(p: &mut Prng) -> Capabilities {
+	match p.below(4) {
+		0 => Capabilities::UNKNOWN,
+		1 => Capabilities::all(),
+		2 => Capabilities::default(),
+		_ => Capabilities::from_bits_truncate(p.next_u32()),
+	}
+}
+
+fn gen_agent(p: &mut Prng) -> String {
+	match p.below(6) {
+		0 => String::new(),
+		1 => "MW/Grin 5.4.0".to_string(),
+		2 => "\u{00e9}\u{4e16}\u{1F600} grin".to_string(),
+		3 => "x".repeat(p.range(1, 3000) as usize),
+		4 => "y".repeat(100_000),
+		_ => (0..p.below(40)).map(|_| (b' ' + p.below(95) as u8) as char).collect(),
+	}
+}
+
+/// Decode a `Headers` message the way the codec does: count, then one header after the other.
+fn rt_headers(cx: &mut Cx, shape: &str, hs: &[BlockHeader]) {
+	let msg = Headers { headers: hs.to_vec() };
+	for v in VERSIONS {
+		cx.eval(&format!("rt|Headers|{}|v{}|{}", shape, v, cx.ct));
+		let bytes = match ser::ser_vec(&msg, pv(v)) {
+			Ok(b) => b,
+			Err(e) => {
+				cx.violation(
+					"type=Headers;phase=roundtrip;event=encode_error",
+					&format!("{:?}", e),
+					json!({"shape": shape, "protocol_version": v}),
+				);
+				continue;
+			}
+		};
+		let mut refb = (hs.len() as u16).to_be_bytes().to_vec();
+		for h in hs {
+			refb.extend_from_slice(&ref_header(h));
+		}
+		cx.bump("refenc.compared");
+		if refb != bytes {
+			cx.bump("refenc.mismatch");
+			cx.run.inconclusive("reference Headers encoder disagrees");
+		}
+		let mut b: &[u8] = &bytes;
+		let res = catch(|| {
+			let mut rd = BufReader::new(&mut b, pv(v));
+			let n = rd.read_u16()?;
+			let mut out = vec![];
+			for _ in 0..n {
+				out.push(rd.body::<BlockHeader>()?);
+			}
+			Ok::<_, ser::Error>((out, rd.bytes_read() as usize))
+		});
+		match res {
+			Ok(Ok((out, used))) => {
+				let re = ser::ser_vec(&Headers { headers: out.clone() }, pv(v)).ok();
+				let hash_ok = out.iter().zip(hs.iter()).all(|(a, b)| a.hash() == b.hash());
+				if used != bytes.len() || out[..] != hs[..] || re.as_deref() != Some(&bytes[..]) || !hash_ok {
+					cx.violation(
+						"type=Headers;phase=roundtrip;event=value_mismatch",
+						&format!(
+							"headers message does not round trip (consumed {} of {}, equal {}, hashes {})",
+							used,
+							bytes.len(),
+							out[..] == hs[..],
+							hash_ok
+						),
+						replay_of("Headers", cx.ct, v, shape, &bytes, ""),
+					);
+				} else {
+					cx.bump(&format!("rt.Headers.v{}", v));
+				}
+			}
+			other => cx.violation(
+				"type=Headers;phase=roundtrip;event=decode_error",
+				&short(format!("{:?}", other.map(|r| r.map(|_| ()).map_err(|e| e)).map_err(|p| p.message))),
+				replay_of("Headers", cx.ct, v, shape, &bytes, ""),
+			),
+		}
+		// count inconsistent with the headers that follow
+		for (c2, name) in [(hs.len() as u16 + 1, "plus1"), (0xffff, "max")] {
+			let mut b = bytes.clone();
+			b[0..2].copy_from_slice(&c2.to_be_bytes());
+			cx.eval(&format!("pert|Headers|count|{}|v{}", name, v));
+			let mut bb: &[u8] = &b;
+			let r = catch(|| {
+				let mut rd = BufReader::new(&mut bb, pv(v));
+				let n = rd.read_u16()?;
+				for _ in 0..n {
+					rd.body::<BlockHeader>()?;
+				}
+				Ok::<_, ser::Error>(())
+			});
+			match r {
+				Ok(Err(_)) => {
+					cx.bump("reject.Headers.count_mismatch");
+					cx.bump("reject.total");
+				}
+				Ok(Ok(())) => cx.violation(
+					"type=Headers;class=count_mismatch;event=noncanonical_encoding_accepted",
+					"headers list with a count above its content decodes",
+					replay_of("Headers", cx.ct, v, name, &b, ""),
+				),
+				Err(_) => cx.bump("perturb.panic_seen"),
+			}
+		}
+	}
+}
+
+fn task_p2p(cx: &mut Cx, p: &mut Prng, pools: &Pools, n: usize) {
+	for i in 0..n {
+		if cx.expired() {
+			return;
+		}
+		let a4 = gen_addr(p, 0);
+		let a6 = gen_addr(p, 1);
+		rt(cx, "v4", &a4);
+		rt(cx, "v6", &a6);
+		let (s, r) = if p.bool() { (a4, a6) } else { (a6, a4) };
+		let ua = gen_agent(p);
+		let uac = format!("ua{}", ua.len().min(3001) / 1000);
+		rt(
+			cx,
+			&uac,
+			&Hand {
+				version: pv(*p.pick(&[1, 2, 3, 1000, 0, u32::MAX])),
+				capabilities: gen_caps(p),
+				nonce: p.interesting_u64(),
+				genesis: gen_hash(p),
+				total_difficulty: Difficulty::from_num(p.interesting_u64()),
+				sender_addr: s,
+				receiver_addr: r,
+				user_agent: ua.clone(),
+			},
+		);
+		rt(
+			cx,
+			&uac,
+			&Shake {
+				version: pv(*p.pick(&[1, 2, 3, 1000, 0, u32::MAX])),
+				capabilities: gen_caps(p),
+				genesis: gen_hash(p),
+				total_difficulty: Difficulty::from_num(p.interesting_u64()),
+				user_agent: ua.clone(),
+			},
+		);
+		rt(cx, "caps", &GetPeerAddrs { capabilities: gen_caps(p) });
+		let na = match i % 5 {
+			0 => 0,
+			1 => 1,
+			2 => 256,
+			_ => p.below(40) as usize,
+		};
+		let peers: Vec<PeerAddr> = (0..na)
+			.map(|_| {
+				let c = p.below(2);
+				gen_addr(p, c)
+			})
+			.collect();
+		rt(cx, &format!("n{}", na.min(41)), &StrictAddrs(PeerAddrs { peers }));
+		rt(
+			cx,
+			&uac,
+			&PeerError {
+				code: p.next_u32(),
+				message: ua.clone(),
+			},
+		);
+		let nl = (i % 21).min(20);
+		rt(
+			cx,
+			&format!("n{}", nl),
+			&Locator {
+				hashes: (0..nl).map(|_| gen_hash(p)).collect(),
+			},
+		);
+		let (td, ht) = (Difficulty::from_num(p.interesting_u64()), p.interesting_u64());
+		rt(cx, "ping", &Ping { total_difficulty: td, height: ht });
+		rt(cx, "pong", &Pong { total_difficulty: td, height: ht });
+		rt(cx, &format!("{}", i % 8), &BanReason { ban_reason: ALL_BANS[i % 8] });
+		rt(cx, "req", &TxHashSetRequest { hash: gen_hash(p), height: ht });
+		rt(
+			cx,
+			"arch",
+			&TxHashSetArchive {
+				hash: gen_hash(p),
+				height: ht,
+				bytes: p.interesting_u64(),
+			},
+		);
+		rt(
+			cx,
+			"segreq",
+			&SegmentRequest {
+				block_hash: gen_hash(p),
+				identifier: SegmentIdentifier {
+					height: p.below(256) as u8,
+					idx: p.interesting_u64(),
+				},
+			},
+		);
+		rt(
+			cx,
+			&format!("{}|{}", uac, i % 4),
+			&PeerData {
+				addr: {
+					let c = p.below(2);
+					gen_addr(p, c)
+				},
+				capabilities: gen_caps(p),
+				user_agent: ua,
+				flags: [State::Healthy, State::Banned, State::Defunct, State::Unknown][i % 4],
+				last_banned: p.next_u64() as i64,
+				ban_reason: ALL_BANS[i % 8],
+				last_connected: p.next_u64() as i64,
+				last_attempt: p.next_u64() as i64,
+			},
+		);
+		// message header of every type
+		let t = ALL_TYPES[i % 29];
+		let len = p.below(5);
+		cx.eval(&format!("rt|MsgHeader|{:?}", t));
+		let hb = ser::ser_vec(&MsgHeader::new(t, len), pv(1)).expect("msg header");
+		match dec_bin::<MsgHeaderWrapper>(&hb, 1) {
+			Dec::Ok(MsgHeaderWrapper::Known(h), used)
+				if used == hb.len()
+					&& h.msg_type == t && h.msg_len == len
+					&& ser::ser_vec(&h, pv(1)).ok().as_deref() == Some(&hb[..]) =>
+			{
+				cx.bump("rt.MsgHeader.v1")
+			}
+			_ => {
+				if len <= 0 || t != Type::Error {
+					cx.violation(
+						"type=MsgHeader;phase=roundtrip;event=value_mismatch",
+						&format!("message header of type {:?} len {} does not round trip", t, len),
+						replay_of("MsgHeader", cx.ct, 1, "hdr", &hb, ""),
+					);
+				} else {
+					// Type::Error has a maximum body length of 0: a non-empty error message is not carried
+					cx.bump("not_carried.MsgHeader.error_with_body");
+				}
+			}
+		}
+		// headers message
+		if i % 8 == 0 {
+			let k = [0usize, 1, 3, 32][i / 8 % 4];
+			let hs: Vec<BlockHeader> = (0..k)
+				.map(|_| {
+					let (eb, hv) = (p.range(10, 63) as u8, 1 + p.below(5) as u16);
+					gen_header(p, eb, hv).0
+				})
+				.collect();
+			rt_headers(cx, &format!("n{}", k), &hs);
+		}
+		let _ = pools;
+	}
+	// the address classes a v6 socket address can fall in: mapped (::ffff:a.b.c.d) and compatible (::a.b.c.d)
+	for class in [2u64, 3] {
+		for _ in 0..(n / 4).max(8) {
+			let a = gen_addr(p, class);
+			rt(cx, &addr_class(&a), &a);
+		}
+	}
+	perturb_p2p(cx, p);
+}
+
+fn perturb_p2p(cx: &mut Cx, p: &mut Prng) {
+	let v = 1000;
+	// address family tag: 0 = v4, 1 = v6
+	let a6 = ser::ser_vec(&gen_addr(p, 1), pv(v)).unwrap();
+	for tag in 2..=255u8 {
+		let mut b = a6.clone();
+		b[0] = tag;
+		must_reject::<PeerAddr>(cx, "PeerAddr", "unknown_address_family_tag", &format!("tag{}", tag), v, &b, Mode::Strict);
+	}
+	// ban reason codes: 0..=7
+	for code in (-3i32..=300).chain([i32::MIN, i32::MAX, 1 << 16].into_iter()) {
+		if (0..=7).contains(&code) {
+			continue;
+		}
+		must_reject::<BanReason>(cx, "BanReason", "unknown_reason_code", &format!("{}", code.clamp(-4, 301)), v, &code.to_be_bytes(), Mode::Strict);
+	}
+	probe::<BanReason>(cx, "banreason_empty_body_reads_as_none", v, &[]);
+	// user agent: length prefix vs content, invalid utf-8
+	let hand = Hand {
+		version: pv(1000),
+		capabilities: Capabilities::default(),
+		nonce: 7,
+		genesis: gen_hash(p),
+		total_difficulty: Difficulty::from_num(99),
+		sender_addr: gen_addr(p, 0),
+		receiver_addr: gen_addr(p, 0),
+		user_agent: "MW/Grin 5.4".into(),
+	};
+	let hb = ser::ser_vec(&hand, pv(v)).unwrap();
+	let ua_at = 4 + 4 + 8 + 8 + 7 + 7;
+	let shake = Shake {
+		version: pv(1000),
+		capabilities: Capabilities::default(),
+		genesis: gen_hash(p),
+		total_difficulty: Difficulty::from_num(99),
+		user_agent: "MW/Grin 5.4".into(),
+	};
+	let sb = ser::ser_vec(&shake, pv(v)).unwrap();
+	let sua_at = 4 + 4 + 8;
+	for (c2, name) in [(10u64, "minus1"), (12, "plus1"), (100_001, "over_read_limit"), (1 << 32, "2p32"), (u64::MAX, "max")] {
+		let mut b = hb.clone();
+		b[ua_at..ua_at + 8].copy_from_slice(&be64(c2));
+		must_reject::<Hand>(cx, "Hand", "count_mismatch_user_agent_length", name, v, &b, Mode::CountLike);
+		let mut b = sb.clone();
+		b[sua_at..sua_at + 8].copy_from_slice(&be64(c2));
+		must_reject::<Shake>(cx, "Shake", "count_mismatch_user_agent_length", name, v, &b, Mode::CountLike);
+	}
+	for bad in [0xffu8, 0xc0, 0x80] {
+		let mut b = hb.clone();
+		b[ua_at + 8 + 3] = bad;
+		must_reject::<Hand>(cx, "Hand", "user_agent_not_utf8", &format!("{:02x}", bad), v, &b, Mode::Strict);
+		let mut b = sb.clone();
+		b[sua_at + 8 + 3] = bad;
+		must_reject::<Shake>(cx, "Shake", "user_agent_not_utf8", &format!("{:02x}", bad), v, &b, Mode::Strict);
+	}
+	// informational: capability bits nobody defines are dropped silently (forward compatibility by design)
+	let mut b = hb.clone();
+	b[4..8].copy_from_slice(&0xffff_ff80u32.to_be_bytes());
+	probe::<Hand>(cx, "hand_undefined_capability_bits", v, &b);
+	// counted lists
+	let loc = ser::ser_vec(&Locator { hashes: (0..3).map(|_| gen_hash(p)).collect() }, pv(v)).unwrap();
+	for (c2, name) in [(2u8, "minus1"), (4, "plus1"), (20, "limit"), (21, "over_limit"), (255, "max")] {
+		let mut b = loc.clone();
+		b[0] = c2;
+		must_reject::<Locator>(cx, "Locator", "count_mismatch_hashes", name, v, &b, Mode::CountLike);
+	}
+	let pa = ser::ser_vec(&PeerAddrs { peers: (0..3).map(|_| gen_addr(p, 0)).collect() }, pv(v)).unwrap();
+	for (c2, name) in [(2u32, "minus1"), (4, "plus1"), (256, "limit"), (257, "over_limit"), (u32::MAX, "max")] {
+		let mut b = pa.clone();
+		b[0..4].copy_from_slice(&c2.to_be_bytes());
+		must_reject::<StrictAddrs>(cx, "PeerAddrs", "count_mismatch_peers", name, v, &b, Mode::CountLike);
+	}
+	// message header: magic and type tags
+	let mh = ser::ser_vec(&MsgHeader::new(Type::Ping, 16), pv(v)).unwrap();
+	for (at, name) in [(0usize, "magic0"), (1, "magic1")] {
+		for delta in [1u8, 0x80, 0xff] {
+			let mut b = mh.clone();
+			b[at] = b[at].wrapping_add(delta);
+			cx.eval(&format!("pert|MsgHeader|magic|{}|{}", name, delta));
+			match dec_bin::<MsgHeaderWrapper>(&b, v) {
+				Dec::Err(_) => {
+					cx.bump("reject.MsgHeader.wrong_magic");
+					cx.bump("reject.total");
+				}
+				_ => cx.violation(
+					"type=MsgHeader;class=wrong_magic;event=noncanonical_encoding_accepted",
+					"message header with foreign magic bytes decodes",
+					replay_of("MsgHeader", cx.ct, v, name, &b, ""),
+				),
+			}
+		}
+	}
+	let defined: HashSet<u8> = ALL_TYPES.iter().map(|t| *t as u8).collect();
+	for tag in 0..=255u8 {
+		let mut b = mh.clone();
+		b[2] = tag;
+		b[3..11].copy_from_slice(&be64(0));
+		cx.eval(&format!("pert|MsgHeader|type_tag|{}", tag));
+		let ok = match dec_bin::<MsgHeaderWrapper>(&b, v) {
+			Dec::Ok(MsgHeaderWrapper::Known(h), _) => defined.contains(&tag) && h.msg_type as u8 == tag,
+			Dec::Ok(MsgHeaderWrapper::Unknown(len, t), _) => !defined.contains(&tag) && t == tag && len == 0,
+			_ => false,
+		};
+		if ok {
+			cx.bump("msg_type_tag.classified_correctly");
+		} else {
+			cx.violation(
+				"type=MsgHeader;class=type_tag;event=tag_misclassified",
+				&format!("message type tag {} is not classified as {}", tag, if defined.contains(&tag) { "known" } else { "unknown (kept verbatim)" }),
+				replay_of("MsgHeader", cx.ct, v, &format!("tag{}", tag), &b, ""),
+			);
+		}
+	}
+	// peer store entries: state and ban reason tags
+	let pd = PeerData {
+		addr: gen_addr(p, 0),
+		capabilities: Capabilities::default(),
+		user_agent: "ua".into(),
+		flags: State::Healthy,
+		last_banned: 1,
+		ban_reason: ReasonForBan::None,
+		last_connected: 2,
+		last_attempt: 3,
+	};
+	let pb = ser::ser_vec(&pd, pv(v)).unwrap();
+	let st_at = 7 + 4 + 8 + 2;
+	for tag in 4..=255u8 {
+		let mut b = pb.clone();
+		b[st_at] = tag;
+		must_reject::<PeerData>(cx, "PeerData", "unknown_state_tag", &format!("tag{}", tag), v, &b, Mode::Strict);
+	}
+	for code in [-1i32, 8, 9, 255, 256, i32::MAX] {
+		let mut b = pb.clone();
+		b[st_at + 9..st_at + 13].copy_from_slice(&code.to_be_bytes());
+		must_reject::<PeerData>(cx, "PeerData", "unknown_reason_code", &format!("{}", code), v, &b, Mode::Strict);
+	}
+}
+
+// ------------------------------------------------------------------ task: mined blocks through the untrusted (network) decoders
+
+fn task_mined(cx: &mut Cx, p: &mut Prng, pools: &Pools, n_blocks: u64) {
+	let mut prev_total = Difficulty::from_num(1000);
+	let mut mined: Vec<BlockHeader> = vec![];
+	for height in 1..=n_blocks {
+		if cx.expired() {
+			break;
+		}
+		let var = if height % 2 == 0 { InVar::Features } else { InVar::CommitOnly };
+		let (i, o, k) = [(0, 1, 1), (2, 2, 2), (3, 4, 3), (0, 0, 0), (6, 3, 5)][(height % 5) as usize];
+		let body = gen_body(p, pools, i, o, k, var, true);
+		let mut header = BlockHeader::default();
+		header.height = height;
+		header.version = consensus::header_version(height);
+		header.timestamp = DateTime::<Utc>::from_timestamp(1_700_000_000 + 60 * height as i64, 0).unwrap();
+		header.prev_hash = gen_hash(p);
+		header.prev_root = gen_hash(p);
+		header.output_root = gen_hash(p);
+		header.range_proof_root = gen_hash(p);
+		header.kernel_root = gen_hash(p);
+		header.total_kernel_offset = gen_blind(p);
+		header.output_mmr_size = 1 + height;
+		header.kernel_mmr_size = 1 + height;
+		header.pow.total_difficulty = prev_total + Difficulty::from_num(1);
+		header.pow.secondary_scaling = p.next_u32();
+		header.pow.nonce = p.next_u64();
+		if let Err(e) = vcommon::world::mine(&mut header, prev_total) {
+			cx.run.inconclusive(&format!("mining failed: {}", e));
+			continue;
+		}
+		prev_total = header.pow.total_difficulty;
+		let block = Block { header: header.clone(), body };
+		mined.push(header.clone());
+		let shape = format!("h{}|hv{}|i{}o{}k{}", height, header.version.0, i, o, k);
+		for v in VERSIONS {
+			if !block.carried(v) {
+				continue;
+			}
+			// header
+			cx.eval(&format!("rt|UntrustedBlockHeader|{}|v{}", shape, v));
+			let hb = ser::ser_vec(&header, pv(v)).unwrap();
+			match dec_bin::<UntrustedBlockHeader>(&hb, v) {
+				Dec::Ok(u, used) => {
+					let y: BlockHeader = u.into();
+					if used != hb.len() || y != header || y.hash() != header.hash() || ser::ser_vec(&y, pv(v)).ok().as_deref() != Some(&hb[..]) {
+						cx.violation(
+							"type=UntrustedBlockHeader;phase=roundtrip;event=value_mismatch",
+							"mined header does not survive the untrusted decoder",
+							replay_of("UntrustedBlockHeader", cx.ct, v, &shape, &hb, ""),
+						);
+					} else {
+						cx.bump(&format!("rt.UntrustedBlockHeader.v{}", v));
+					}
+				}
+				other => cx.violation(
+					"type=UntrustedBlockHeader;phase=roundtrip;event=decode_error",
+					&format!("honest mined header refused: {}", match other { Dec::Err(e) => format!("{:?}", e), Dec::Panic(pn) => pn.message, _ => String::new() }),
+					replay_of("UntrustedBlockHeader", cx.ct, v, &shape, &hb, ""),
+				),
+			}
+			// block
+			cx.eval(&format!("rt|UntrustedBlock|{}|v{}", shape, v));
+			let bb = ser::ser_vec(&block, pv(v)).unwrap();
+			match dec_bin::<UntrustedBlock>(&bb, v) {
+				Dec::Ok(u, used) => {
+					let y: Block = u.into();
+					if used != bb.len() || block.diff(&y, v).is_some() || y.hash() != block.hash() || ser::ser_vec(&y, pv(v)).ok().as_deref() != Some(&bb[..]) {
+						cx.violation(
+							"type=UntrustedBlock;phase=roundtrip;event=value_mismatch",
+							"mined block does not survive the untrusted decoder",
+							replay_of("UntrustedBlock", cx.ct, v, &shape, &bb, ""),
+						);
+					} else {
+						cx.bump(&format!("rt.UntrustedBlock.v{}", v));
+					}
+				}
+				other => cx.violation(
+					"type=UntrustedBlock;phase=roundtrip;event=decode_error",
+					&format!("honest mined block refused: {}", match other { Dec::Err(e) => format!("{:?}", e), Dec::Panic(pn) => pn.message, _ => String::new() }),
+					replay_of("UntrustedBlock", cx.ct, v, &shape, &bb, ""),
+				),
+			}
+			// compact block
+			if let Some(cb) = compact_from_reference(cx, &block, p.next_u64()) {
+				cx.eval(&format!("rt|UntrustedCompactBlock|{}|v{}", shape, v));
+				let cbb = ser::ser_vec(&cb, pv(v)).unwrap();
+				match dec_bin::<UntrustedCompactBlock>(&cbb, v) {
+					Dec::Ok(u, used) => {
+						let y: CompactBlock = u.into();
+						if used != cbb.len() || cb.diff(&y, v).is_some() || y.hash() != block.hash() || ser::ser_vec(&y, pv(v)).ok().as_deref() != Some(&cbb[..]) {
+							cx.violation(
+								"type=UntrustedCompactBlock;phase=roundtrip;event=value_mismatch",
+								"compact block of a mined block does not survive the untrusted decoder",
+								replay_of("UntrustedCompactBlock", cx.ct, v, &shape, &cbb, ""),
+							);
+						} else {
+							cx.bump(&format!("rt.UntrustedCompactBlock.v{}", v));
+						}
+					}
+					other => cx.violation(
+						"type=UntrustedCompactBlock;phase=roundtrip;event=decode_error",
+						&format!("honest compact block refused: {}", match other { Dec::Err(e) => format!("{:?}", e), Dec::Panic(pn) => pn.message, _ => String::new() }),
+						replay_of("UntrustedCompactBlock", cx.ct, v, &shape, &cbb, ""),
+					),
+				}
+				if v == 1 || v == 1000 {
+					perturb_compact::<UCB>(cx, p, "UntrustedCompactBlock", &cb);
+				}
+			}
+		}
+		perturb_body::<UB>(cx, p, "UntrustedBlock", &ref_header(&block.header), &block.body);
+		rt(cx, &shape, &block);
+		rt(cx, &shape, &Tip::from_header(&header));
+	}
+	if !mined.is_empty() {
+		rt_headers(cx, &format!("mined{}", mined.len()), &mined);
+	}
+}
+
+// ------------------------------------------------------------------ wrappers so the untrusted decoders can go through must_reject
+
+struct UB(Block);
+impl Readable for UB {
+	fn read<R: Reader>(r: &mut R) -> Result<Self, ser::Error> {
+		Ok(UB(UntrustedBlock::read(r)?.into()))
+	}
+}
+impl Writeable for UB {
+	fn write<W: ser::Writer>(&self, w: &mut W) -> Result<(), ser::Error> {
+		self.0.write(w)
+	}
+}
+struct UCB(CompactBlock);
+impl Readable for UCB {
+	fn read<R: Reader>(r: &mut R) -> Result<Self, ser::Error> {
+		Ok(UCB(UntrustedCompactBlock::read(r)?.into()))
+	}
+}
+impl Writeable for UCB {
+	fn write<W: ser::Writer>(&self, w: &mut W) -> Result<(), ser::Error> {
+		self.0.write(w)
+	}
+}
+
+impl Case for grin_core::core::HeaderEntry {
+	fn fam() -> &'static str {
+		"HeaderEntry"
+	}
+	fn diff(&self, g: &Self, _v: u32) -> Option<String> {
+		let (a, b) = (format!("{:?}", self), format!("{:?}", g));
+		if a == b {
+			None
+		} else {
+			Some(short(format!("{} != {}", a, b)))
+		}
+	}
+	fn id_hash(&self) -> Option<Hash> {
+		Some(self.hash())
+	}
+}
+
+// ------------------------------------------------------------------ task: known answers
+
+fn hex_of(h: &Hash) -> String {
+	hx(h.as_bytes())
+}
+
+fn task_known_answers(cx: &mut Cx, p: &mut Prng) {
+	// the hash primitive itself (blake2b-256 test vectors)
+	for (input, want) in [
+		(&b""[..], "0e5751c026e543b2e8ab2eb06099daa1d1e5df47778f7787faab45cdf12fe3a8"),
+		(&b"abc"[..], "bddd813c634239723171ef3fee98579b94964e3bb1cb3e427262c8c068d52319"),
+	] {
+		cx.eval(&format!("kat|blake2b|{}", input.len()));
+		if hex_of(&h_of(input)) == want {
+			cx.bump("kat.blake2b_ok");
+		} else {
+			cx.run.inconclusive("hash primitive does not reproduce the blake2b-256 test vectors");
+		}
+	}
+	for (ct, want_hash, want_bin) in [
+		(
+			ChainTypes::Mainnet,
+			"40adad0aec27797b48840aa9e00472015c21baea118ce7a2ff1a82c0f8f5bf82",
+			"6be6f34b657b785e558e85cc3b8bdb5bcbe8c10e7e58524c8027da7727e189ef",
+		),
+		(
+			ChainTypes::Testnet,
+			"edc758c1370d43e1d733f70f58cf187c3be8242830429b1676b89fd91ccf2dab",
+			"91c638fc019a54e6652bd6bb3d9c5e0c17e889cef34a5c28528e7eb61a884dc4",
+		),
+	] {
+		global::set_local_chain_type(ct);
+		let g = if ct == ChainTypes::Mainnet {
+			genesis::genesis_main()
+		} else {
+			genesis::genesis_test()
+		};
+		let name = ct_name(ct);
+		rt(cx, &format!("genesis|{}", name), &g);
+		rt(cx, &format!("genesis|{}", name), &g.header);
+		rt(cx, &format!("genesis|{}", name), &CompactBlock::from(g.clone()));
+		rt(cx, &format!("genesis|{}", name), &Tip::from_header(&g.header));
+		rt(cx, &format!("genesis|{}", name), &<BlockHeader as PMMRable>::as_elmt(&g.header));
+		for k in g.kernels() {
+			rt(cx, &format!("genesis|{}", name), k);
+		}
+		for o in g.outputs() {
+			rt(cx, &format!("genesis|{}", name), o);
+		}
+		// published identity hash after transport at every version, and published hash of the v1 bytes
+		for v in VERSIONS {
+			cx.eval(&format!("kat|genesis|{}|v{}", name, v));
+			let b = ser::ser_vec(&g, pv(v)).expect("genesis ser");
+			let ok = match dec_bin::<Block>(&b, v) {
+				Dec::Ok(y, _) => {
+					hex_of(&y.hash()) == want_hash
+						&& hex_of(&y.header.hash()) == want_hash
+						&& ser::ser_vec(&y, pv(1)).map(|b1| hex_of(&h_of(&b1)) == want_bin).unwrap_or(false)
+				}
+				_ => false,
+			};
+			if ok {
+				cx.bump("kat.genesis_hash_after_transport");
+			} else {
+				cx.violation(
+					&format!("type=Block;value=genesis_{};phase=hash;event=published_hash_not_reproduced", name),
+					&format!("{} genesis transported at v{} does not reproduce its published block hash / v1 encoding hash", name, v),
+					replay_of("Block", name, v, "genesis", &b, ""),
+				);
+			}
+		}
+		// the header commits to the kernel and range proof through an MMR root of one leaf: H(pos 0 || element),
+		// which pins the hash of a kernel to its version-1 bytes
+		if g.kernels().len() == 1 && g.outputs().len() == 1 {
+			cx.eval(&format!("kat|genesis_roots|{}", name));
+			let k = &g.kernels()[0];
+			let mut kb = be64(0).to_vec();
+			kb.extend_from_slice(&ref_kernel(k, 1));
+			let mut pb = be64(0).to_vec();
+			pb.extend_from_slice(&be64(g.outputs()[0].proof.plen as u64));
+			pb.extend_from_slice(&g.outputs()[0].proof.proof[..g.outputs()[0].proof.plen]);
+			let lib_k = (0u64, k).hash();
+			let lib_p = (0u64, &g.outputs()[0].proof).hash();
+			if lib_k == g.header.kernel_root
+				&& h_of(&kb) == g.header.kernel_root
+				&& lib_p == g.header.range_proof_root
+				&& h_of(&pb) == g.header.range_proof_root
+			{
+				cx.bump("kat.genesis_kernel_and_proof_roots");
+			} else {
+				cx.violation(
+					&format!("type=TxKernel;value=genesis_{};phase=hash;event=kernel_hash_not_v1_bytes", name),
+					"the genesis header's kernel / range proof root is not reproduced from the hash over the v1 bytes",
+					json!({"chain_type": name, "kernel_root": hex_of(&g.header.kernel_root), "lib": hex_of(&lib_k), "ref": hex_of(&h_of(&kb))}),
+				);
+			}
+		}
+	}
+	global::set_local_chain_type(ChainTypes::AutomatedTesting);
+	probe_last_day(cx, p);
+}
+
+// ------------------------------------------------------------------ main
+
+type Task = Box<dyn FnOnce(&Run, Prng, &Pools, Instant, &str) + Send>;
+
+fn main() {
+	let run = Run::from_env("C10", "exploration");
+	let san = run.args.iter().any(|a| a == "--san");
+	init_globals(true);
+	vcommon::monitor::install_panic_hook();
+	let thorough = run.tier == vcommon::Tier::Thorough;
+	// work multiplier: tiers differ in budgets only
+	let mult: f64 = if san { 0.4 } else if thorough { 32.0 } else { 4.0 };
+	let sc = |base: usize| -> usize { ((base as f64 * mult).round() as usize).max(1) };
+	let budget = Duration::from_secs(if san { 60 } else { run.tier.pick(75, 660) });
+	let deadline = Instant::now() + budget;
+
+	let t0 = Instant::now();
+	let pools = Arc::new(build_pools(
+		run.seed,
+		if san { 12 } else { run.tier.pick(40, 64) },
+		if san { 4 } else { run.tier.pick(8, 16) },
+		if san { 600 } else { run.tier.pick(4000, 8000) },
+	));
+	run.count("pool.outputs_with_real_bulletproofs", (pools.outs.len() + pools.cb.len()) as u64);
+	run.count("pool.commitments", pools.commits.len() as u64);
+	run.extra("pool_build_s", json!(t0.elapsed().as_secs_f64()));
+	{
+		// pool sanity: the bulletproofs are real
+		let commits: Vec<Commitment> = pools.outs.iter().map(|o| o.commitment()).collect();
+		let proofs: Vec<RangeProof> = pools.outs.iter().map(|o| o.proof).collect();
+		if Output::batch_verify_proofs(&commits, &proofs).is_err() {
+			run.inconclusive("pool bulletproofs do not verify");
+		}
+	}
+
+	let mut master = Prng::new(run.seed ^ 0xC10);
+	let mut tasks: VecDeque<(String, Prng, Task)> = VecDeque::new();
+	let mut add = |name: String, t: Task| {
+		let p = master.fork(fnv64(name.as_bytes()));
+		tasks.push_back((name, p, t));
+	};
+
+	// heavy first
+	for ct in CHAINS {
+		// every edge-bit size 1..=63 on every chain type (1..=9 exercise the "not carried" limit)
+		for part in 0..3u8 {
+			let ebs: Vec<u8> = (1..=63u8).filter(|e| e % 3 == part).collect();
+			let per = sc(6).max(5);
+			add(
+				format!("headers|{}|{}", ct_name(ct), part),
+				Box::new(move |run, mut p, _pools, dl, name| {
+					let mut cx = Cx::new(run, ct, dl).named(name);
+					task_headers(&mut cx, &mut p, &ebs, per);
+				}),
+			);
+		}
+		// one round per task so that the heavy chain types spread over the workers
+		for j in 0..sc(1) {
+			add(
+				format!("blocks|{}|{}", ct_name(ct), j),
+				Box::new(move |run, mut p, pools, dl, name| {
+					let mut cx = Cx::new(run, ct, dl).named(name);
+					task_blocks(&mut cx, &mut p, pools, 1);
+				}),
+			);
+			add(
+				format!("txs|{}|{}", ct_name(ct), j),
+				Box::new(move |run, mut p, pools, dl, name| {
+					let mut cx = Cx::new(run, ct, dl).named(name);
+					task_txs(&mut cx, &mut p, pools, 1);
+				}),
+			);
+		}
+	}
+	for (k, ct) in [ChainTypes::AutomatedTesting, ChainTypes::Mainnet].into_iter().enumerate() {
+		let sizes: Vec<usize> = if san {
+			vec![1, 5, 17]
+		} else if thorough {
+			vec![1, 2, 3, 4, 7, 8, 9, 15, 16, 17, 31, 33, 64, 65, 100, 127, 200]
+		} else {
+			vec![1, 2, 3, 7, 8, 13, 33, 64, 70]
+		};
+		let max_ids = sc(8);
+		for (j, chunk) in sizes.chunks(3).enumerate() {
+			let chunk = chunk.to_vec();
+			add(
+				format!("segments|{}|{}", ct_name(ct), j),
+				Box::new(move |run, mut p, pools, dl, name| {
+					let mut cx = Cx::new(run, ct, dl).named(name);
+					task_segments(&mut cx, &mut p, pools, &chunk, max_ids);
+				}),
+			);
+		}
+		let n = sc(300);
+		add(
+			format!("kernels|{}", ct_name(ct)),
+			Box::new(move |run, mut p, pools, dl, name| {
+				let mut cx = Cx::new(run, ct, dl).named(name);
+				task_kernels(&mut cx, &mut p, pools, n);
+			}),
+		);
+		let n = sc(150);
+		add(
+			format!("small|{}", ct_name(ct)),
+			Box::new(move |run, mut p, pools, dl, name| {
+				let mut cx = Cx::new(run, ct, dl).named(name);
+				task_small(&mut cx, &mut p, pools, n);
+			}),
+		);
+		let n = sc(120);
+		add(
+			format!("p2p|{}", ct_name(ct)),
+			Box::new(move |run, mut p, pools, dl, name| {
+				let mut cx = Cx::new(run, ct, dl).named(name);
+				task_p2p(&mut cx, &mut p, pools, n);
+			}),
+		);
+		let r = sc(1);
+		let big = k == 0 && !san;
+		add(
+			format!("bitmap|{}", ct_name(ct)),
+			Box::new(move |run, mut p, _pools, dl, name| {
+				let mut cx = Cx::new(run, ct, dl).named(name);
+				task_bitmap(&mut cx, &mut p, r, big);
+			}),
+		);
+	}
+	let nb = if san { 5 } else { run.tier.pick(15, 45) };
+	add(
+		"mined|AutomatedTesting".into(),
+		Box::new(move |run, mut p, pools, dl, name| {
+			let mut cx = Cx::new(run, ChainTypes::AutomatedTesting, dl).named(name);
+			task_mined(&mut cx, &mut p, pools, nb);
+		}),
+	);
+	add(
+		"known_answers".into(),
+		Box::new(move |run, mut p, _pools, dl, name| {
+			let mut cx = Cx::new(run, ChainTypes::Mainnet, dl).named(name);
+			task_known_answers(&mut cx, &mut p);
+		}),
+	);
+
+	let n_tasks = tasks.len();
+	let queue = Mutex::new(tasks);
+	let timings: Mutex<Vec<(String, f64)>> = Mutex::new(vec![]);
+	let workers = std::thread::available_parallelism().map(|n| n.get()).unwrap_or(8).min(16);
+	std::thread::scope(|s| {
+		for _ in 0..workers {
+			s.spawn(|| loop {
+				let next = queue.lock().unwrap().pop_front();
+				let (name, p, t) = match next {
+					Some(x) => x,
+					None => break,
+				};
+				let t1 = Instant::now();
+				let run_ref = &run;
+				let pools_ref: &Pools = &pools;
+				let nm = name.clone();
+				if let Err(pn) = catch(move || t(run_ref, p, pools_ref, deadline, &nm)) {
+					run.inconclusive(&format!("harness task {} panicked at {}: {}", name, pn.location, pn.message));
+					run.count("harness.task_panics", 1);
+				}
+				timings.lock().unwrap().push((name, t1.elapsed().as_secs_f64()));
+			});
+		}
+	});
+	let mut tm = timings.into_inner().unwrap();
+	tm.sort_by(|a, b| b.1.partial_cmp(&a.1).unwrap());
+	run.extra(
+		"slowest_tasks_s",
+		json!(tm.iter().take(6).map(|(n, t)| json!([n, (t * 100.0).round() / 100.0])).collect::<Vec<_>>()),
+	);
+	run.count("tasks.run", n_tasks as u64);
+	for (sig, (_, what, replay)) in std::mem::take(&mut *VIOLS.lock().unwrap()) {
+		run.violation(&sig, &what, replay);
+	}
+
+	finish(&run, san);
+}
+
+fn finish(run: &Run, san: bool) -> ! {
+	run.set_rule(
+		"Values of every Writeable+Readable consensus / wire / db type are generated from a seeded PRNG \
+		 (kernels: 4 variants x fee/fee_shift/lock/relative-height boundaries incl. all 10080 NRD heights; inputs in both encodings; \
+		 outputs with real bulletproofs from a pre-built pool; sorted bodies from empty to the chain type's weight limit; headers with field extremes, \
+		 versions 1..5 (+0, 6, 65535), every edge-bit size 1..63 on 4 chain types; blocks; compact blocks (library conversion and reference-built); \
+		 proofs; segments of 3 leaf types from VecBackend PMMRs (all ids up to height 5, prunable or not) and from parts; bitmap segments with sparse / \
+		 abundant / raw blocks; tips, positions, sums, db list entries; all p2p bodies incl. v4/v6 addresses). Each value is encoded at versions 1, 2, 3, 1000, \
+		 decoded with BinReader (sentinel appended, exact consumption) and BufReader (byte counter), compared field by field (inputs by commitment when the \
+		 version drops features), re-encoded (byte identical), re-encoded at every other version (must equal the direct encoding), identity-hashed before / after \
+		 and against the hash of the v1 definition bytes of an independent reference encoder; mainnet / testnet genesis reproduce their published hashes after \
+		 transport. Perturbations built on the reference encoder break one canonical-form rule each (unsorted / duplicate entries, non-zero reserved bytes or \
+		 padding bits, undefined tags 0..255, counts inconsistent with content, out-of-range fields) and must be refused by both readers. \
+		 An evaluation is one (value or perturbed encoding, version); its signature is type|shape|version|chain type, where shape lists variant, \
+		 field classes, entry counts, edge bits, perturbed position / tag; distinct signatures are counted as distinct_nontrivial.",
+	);
+	run.assume("Header timestamps have no sub-second part and lie within the decoder's documented date range (values in the last representable day are counted as not carried).");
+	run.assume("Proof nonces are below 2^edge_bits and proofs have global::proofsize() nonces; proofs whose packed form is shorter than 8 bytes are a format limit (not carried).");
+	run.assume("Inputs of one body have pairwise distinct commitments; v6 socket addresses carry flowinfo = scope_id = 0 (not part of the encoding).");
+	run.assume("Lists stay within the per-message limits the decoders enforce (20 locator hashes, 256 peer addresses, 100000-byte strings, body weight <= max block weight).");
+	run.assume("Range proofs are real 675-byte bulletproofs (RangeProof::read pads shorter proofs: DESIGN 2.5 trap, recorded under info.*).");
+	run.assume("Not treated as canonical-form rules because the format does not define them (recorded under info.*): order/uniqueness of indices and mode choice inside bitmap blocks, undefined capability bits (dropped by design), BanReason with an empty body, HeaderEntry's bool byte.");
+
+	// minimum observations
+	let div: u64 = if san { 10 } else { 1 };
+	let per_version: [(&str, u64); 44] = [
+		("KernelFeatures", 4000),
+		("TxKernel", 1000),
+		("Input", 200),
+		("CommitWrapper", 200),
+		("Output", 200),
+		("OutputIdentifier", 200),
+		("RangeProof", 200),
+		("Transaction", 60),
+		("TransactionBody", 60),
+		("BlockHeader", 1000),
+		("Proof", 1000),
+		("ProofOfWork", 1000),
+		("Block", 40),
+		("CompactBlock", 60),
+		("ShortId", 200),
+		("Segment<OutputIdentifier>", 60),
+		("Segment<RangeProof>", 60),
+		("Segment<TxKernel>", 60),
+		("Segment<BitmapChunk>", 20),
+		("SegmentProof", 60),
+		("SegmentIdentifier", 200),
+		("BitmapSegment", 20),
+		("Tip", 200),
+		("CommitPos", 200),
+		("BlockSums", 200),
+		("MerkleProof", 200),
+		("Hand", 150),
+		("Shake", 150),
+		("GetPeerAddrs", 150),
+		("PeerAddrs", 150),
+		("PeerAddr", 300),
+		("Locator", 150),
+		("Ping", 150),
+		("Pong", 150),
+		("BanReason", 150),
+		("TxHashSetRequest", 150),
+		("TxHashSetArchive", 150),
+		("SegmentRequest", 150),
+		("SegmentResponse<TxKernel>", 60),
+		("SegmentResponse<RangeProof>", 60),
+		("OutputSegmentResponse", 60),
+		("OutputBitmapSegmentResponse", 20),
+		("Headers", 10),
+		("UntrustedBlock", 4),
+	];
+	for (fam, min) in per_version.iter() {
+		for v in VERSIONS {
+			let name = format!("rt.{}.v{}", fam, v);
+			// commit-only bodies are not carried below v3, so mined blocks with them only count at v3+
+			let m = if *fam == "UntrustedBlock" && v < 3 { (*min / 2).max(1) } else { *min };
+			run.require(&name, run.counter(&name), (m / div).max(1));
+		}
+	}
+	for (name, min) in [
+		("reject.total", 20_000u64),
+		("reject.TxKernel.v1_reserved_bytes_nonzero", 150),
+		("reject.TxKernel.unknown_feature_tag_v1", 900),
+		("reject.TxKernel.unknown_feature_tag_v2", 2500),
+		("reject.Transaction.unsorted_inputs_v1", 5),
+		("reject.Transaction.unsorted_inputs_v3", 5),
+		("reject.Transaction.unsorted_outputs_v3", 5),
+		("reject.Transaction.unsorted_kernels_v2", 5),
+		("reject.Transaction.duplicate_inputs_v3", 5),
+		("reject.Transaction.duplicate_outputs_v1", 5),
+		("reject.Transaction.duplicate_kernels_v3", 5),
+		("reject.Block.unsorted_kernels_v3", 5),
+		("reject.Block.duplicate_inputs_v2", 5),
+		("reject.UntrustedBlock.unsorted_outputs_v3", 2),
+		("reject.CompactBlock.unsorted_kern_ids", 5),
+		("reject.CompactBlock.duplicate_kern_full", 5),
+		("reject.UntrustedCompactBlock.unsorted_kern_ids", 2),
+		("reject.Proof.padding_bits_nonzero", 100),
+		("reject.BlockHeader.proof_padding_bits_nonzero", 200),
+		("reject.BlockHeader.timestamp_out_of_range", 300),
+		("reject.Proof.edge_bits_out_of_range", 1000),
+		("reject.Input.unknown_output_feature_tag", 500),
+		("reject.Output.unknown_output_feature_tag", 500),
+		("reject.Segment<TxKernel>.unsorted_leaf_pos", 5),
+		("reject.Segment<OutputIdentifier>.duplicate_hash_pos", 3),
+		("reject.BitmapSegment.unknown_block_mode_tag", 2000),
+		("reject.BanReason.unknown_reason_code", 290),
+		("reject.Hand.user_agent_not_utf8", 6),
+		("msg_type_tag.classified_correctly", 512),
+		("bitmap_block_mode.raw", 2),
+		("bitmap_block_mode.positive", 4),
+		("bitmap_block_mode.negative", 2),
+		("not_carried.encode.Transaction.v1", 10),
+		("not_carried.encode.Block.v2", 5),
+		("xver.Transaction", 300),
+		("xver.TxKernel", 5000),
+		("idhash_vs_definition.TxKernel", 1000),
+		("idhash_vs_definition.BlockHeader", 1000),
+		("kat.genesis_hash_after_transport", 8),
+		("kat.genesis_kernel_and_proof_roots", 2),
+		("kat.blake2b_ok", 2),
+	] {
+		run.require(name, run.counter(name), (min / div).max(1));
+	}
+	// the independent reference encoder must agree everywhere, otherwise the perturbation half is built on sand
+	let cmp = run.counter("refenc.compared");
+	let mis = run.counter("refenc.mismatch");
+	run.require("refenc.agreeing_encodings", cmp - mis, cmp.max(1000 / div));
+	run.require("harness.tasks_without_panic", run.counter("tasks.run") - run.counter("harness.task_panics"), run.counter("tasks.run"));
+
+	// literal samples
+	global::set_local_chain_type(ChainTypes::AutomatedTesting);
+	let k = TxKernel {
+		features: KernelFeatures::NoRecentDuplicate {
+			fee: FeeFields::new(3, 500_000).unwrap(),
+			relative_height: NRDRelativeHeight::new(10080).unwrap(),
+		},
+		excess: Commitment::from_vec(vec![8; 33]),
+		excess_sig: Signature::from_raw_data(&[1; 64]).unwrap(),
+	};
+	run.sample(json!({"case": "TxKernel NRD fee_shift 3 rel 10080", "v1_hex": hx(&ser::ser_vec(&k, pv(1)).unwrap()), "v2_hex": hx(&ser::ser_vec(&k, pv(2)).unwrap()), "hash": hex_of(&k.hash())}));
+	let mut b1 = ref_kernel(&k, 1);
+	b1[10] = 1;
+	run.sample(json!({"case": "perturbation: NRD kernel v1 with reserved byte 10 = 1 (must be refused)", "hex": hx(&b1)}));
+	let pr = Proof { edge_bits: 31, nonces: (0..8).map(|i| (1u64 << 31) - 1 - i).collect() };
+	run.sample(json!({"case": "Proof edge_bits 31, 8 nonces (AutomatedTesting), packed little-endian bit order", "hex": hx(&ref_proof(&pr))}));
+	run.sample(json!({"case": "PeerAddr [::ffff:1.2.3.4]:3414 encodes with family tag 1 and decodes as 1.2.3.4:3414", "hex": hx(&ser::ser_vec(&PeerAddr(SocketAddr::V6(SocketAddrV6::new(Ipv4Addr::new(1,2,3,4).to_ipv6_mapped(), 3414, 0, 0))), pv(1)).unwrap())}));
+	run.sample(json!({"case": "perturbation: body counts (2 inputs, 0 outputs, 1 kernel) with the two 33-byte commit-only inputs swapped (v3)", "shape": "unsorted_inputs_v3"}));
+	run.finish()
 }
